@@ -139,6 +139,34 @@ func init() {
 			{ID: "C15-U6-wrong-epoch", File: f, Expect: "U6",
 				Old: "\ts.setResolvedEpoch(slot.Epoch())\n\ts.trimDuties(",
 				New: "\ts.setResolvedEpoch(slot.Epoch() + 1)\n\ts.trimDuties("},
+			// added with the path-sensitive reformulation (h15): mechanisms the refactor-robust rules could have weakened
+			{ID: "C15-U1-duty-slot-shifted", File: f, Expect: "U1",
+				Old: "\t\t\tSlot: slot.Slot,\n",
+				New: "\t\t\tSlot: slot.Slot + 1,\n"},
+			{ID: "C15-U2-delay-failure-conditionally-ignored", File: f, Expect: "U2",
+				Old: "} else if !delaySlotOffset(dutyCtx, slot, duty, s.delayFunc) {",
+				New: "} else if !delaySlotOffset(dutyCtx, slot, duty, s.delayFunc) && len(defSet) == 0 {"},
+			{ID: "C15-U2-fallback-earlier", File: f, Expect: "U2",
+				Old: "\t\toffset += 300 * time.Millisecond\n",
+				New: "\t\toffset -= 300 * time.Millisecond\n"},
+			{ID: "C15-U3-sync-advance-before-store", File: f, Expect: "U3",
+				Old: "\t\t\tduty := core.NewSyncContributionDuty(sl.Slot)\n",
+				New: "\t\t\tsl = sl.Next()\n\t\t\tduty := core.NewSyncContributionDuty(sl.Slot)\n"},
+			{ID: "C15-U3-active-filter-extra-escape", File: f, Expect: "U3",
+				Old: "if !val.Status.IsActive() && val.Validator.ActivationEpoch != eth2p0.Epoch(epoch) {",
+				New: "if !val.Status.IsActive() && val.Validator.ActivationEpoch != eth2p0.Epoch(epoch) && val.Balance > 0 {"},
+			{ID: "C15-U4-presence-test-on-other-set", File: f, Expect: "U4",
+				Old: "\tif _, ok := defSet[pubkey]; ok {",
+				New: "\tif _, ok := s.duties[core.NewAttesterDuty(duty.Slot)][pubkey]; ok {"},
+			{ID: "C15-U5-clone-of-other-set", File: f, Expect: "U5",
+				Old: "clone, err := defSet.Clone() // Clone for each subscriber.",
+				New: "clone, err := core.DutyDefinitionSet{}.Clone()"},
+			{ID: "C15-U6-proposer-error-conditionally-ignored", File: f, Expect: "U6",
+				Old: "\terr = s.resolveProDuties(ctx, slot, vals)\n\tif err != nil {",
+				New: "\terr = s.resolveProDuties(ctx, slot, vals)\n\tif err != nil && len(vals) > 1 {"},
+			{ID: "C15-U6-empty-check-weakened", File: f, Expect: "U6",
+				Old: "\tif len(vals) == 0 {",
+				New: "\tif len(vals) <= 1 {"},
 		},
 	})
 }
@@ -194,9 +222,376 @@ func c15Binding(fv *ssa.FreeVar) ssa.Value {
 	return out
 }
 
-// c15Rooted: v is root, or a field path / load / single-assignment local copy / captured variable of root.
-func c15Rooted(v, root ssa.Value) bool {
+// c15Env indexes the scheduler package: who references which function. It lets the rules follow
+// values and control across helper functions that have exactly one static use (a method or closure
+// extracted from an anchor function and called / started only from there).
+type c15Env struct {
+	c     *rt.Ctx
+	pkg   *ssa.Package
+	funcs []*ssa.Function
+	calls map[*ssa.Function][]ssa.CallInstruction // static call / go / defer sites
+	leaks map[*ssa.Function]bool                  // used as a value (method value, stored, passed)
+}
+
+func c15NewEnv(c *rt.Ctx) *c15Env {
+	e := &c15Env{c: c, pkg: c.SSAPkg(c15P), calls: map[*ssa.Function][]ssa.CallInstruction{}, leaks: map[*ssa.Function]bool{}}
+	e.funcs = an.PkgFuncs(e.pkg)
+	for _, fn := range e.funcs {
+		for _, in := range an.Instrs(fn, false) {
+			if mc, ok := in.(*ssa.MakeClosure); ok {
+				lit, _ := mc.Fn.(*ssa.Function)
+				if lit == nil {
+					continue
+				}
+				if lit.Synthetic != "" {
+					// bound-method wrapper / thunk: the underlying method is used as a value
+					if obj, ok := lit.Object().(*types.Func); ok {
+						if m := c.P.SSA.FuncValue(obj); m != nil {
+							e.leaks[an.Orig(m)] = true
+						}
+					}
+					continue
+				}
+				for _, ref := range *mc.Referrers() {
+					if ci, ok := ref.(ssa.CallInstruction); ok && ci.Common().Value == ssa.Value(mc) {
+						leaked := false
+						for _, a := range ci.Common().Args {
+							if a == ssa.Value(mc) {
+								leaked = true
+							}
+						}
+						if !leaked {
+							e.calls[lit] = append(e.calls[lit], ci)
+							continue
+						}
+					}
+					if _, dbg := ref.(*ssa.DebugRef); dbg {
+						continue
+					}
+					e.leaks[lit] = true
+				}
+				continue
+			}
+			for _, op := range an.Operands(in) {
+				f, ok := op.(*ssa.Function)
+				if !ok || f.Pkg != e.pkg {
+					continue
+				}
+				f = an.Orig(f)
+				if ci, ok := in.(ssa.CallInstruction); ok && ci.Common().Value == op && !ci.Common().IsInvoke() {
+					argUse := false
+					for _, a := range ci.Common().Args {
+						if a == op {
+							argUse = true
+						}
+					}
+					if !argUse {
+						e.calls[f] = append(e.calls[f], ci)
+						continue
+					}
+				}
+				e.leaks[f] = true
+			}
+		}
+	}
+	return e
+}
+
+// site returns the only static use of fn when fn is never used as a value and is not exported
+// (an exported function can be called from other packages), else nil.
+func (e *c15Env) site(fn *ssa.Function) ssa.CallInstruction {
+	if fn == nil || e.leaks[fn] || len(e.calls[fn]) != 1 {
+		return nil
+	}
+	if fn.Parent() == nil {
+		if obj := fn.Object(); obj == nil || obj.Exported() {
+			return nil
+		}
+	}
+	return e.calls[fn][0]
+}
+
+// owned returns root, its function literals and – transitively – every function of the package that
+// is only ever called (or started) from a function already in the set.
+func (e *c15Env) owned(root *ssa.Function) map[*ssa.Function]bool {
+	set := map[*ssa.Function]bool{}
+	for _, f := range an.Closure(root) {
+		set[f] = true
+	}
+	for changed := true; changed; {
+		changed = false
+		for _, fn := range e.funcs {
+			if set[fn] || e.leaks[fn] || len(e.calls[fn]) == 0 {
+				continue
+			}
+			if fn.Parent() == nil {
+				if obj := fn.Object(); obj == nil || obj.Exported() {
+					continue
+				}
+			}
+			all := true
+			for _, s := range e.calls[fn] {
+				if !set[s.Parent()] {
+					all = false
+				}
+			}
+			if all {
+				for _, f := range an.Closure(fn) {
+					if !set[f] {
+						set[f] = true
+						changed = true
+					}
+				}
+			}
+		}
+	}
+	return set
+}
+
+func (e *c15Env) ownedList(root *ssa.Function) []*ssa.Function {
+	set := e.owned(root)
+	var out []*ssa.Function
+	for _, f := range e.funcs {
+		if set[f] {
+			out = append(out, f)
+		}
+	}
+	return out
+}
+
+// chain returns the static uses leading from fn up to top (fn's only use, the only use of the function
+// containing it, ...); nil when some link is not unique.
+func (e *c15Env) chain(fn, top *ssa.Function) []ssa.CallInstruction {
+	var out []ssa.CallInstruction
+	for i := 0; i < 8 && fn != top; i++ {
+		s := e.site(fn)
+		if s == nil {
+			return nil
+		}
+		out = append(out, s)
+		fn = s.Parent()
+	}
+	if fn != top {
+		return nil
+	}
+	return out
+}
+
+// argOf maps a parameter of a function with a unique static use to the argument passed there.
+func (e *c15Env) argOf(p *ssa.Parameter) ssa.Value {
+	fn := p.Parent()
+	s := e.site(fn)
+	if s == nil {
+		return nil
+	}
+	for i, q := range fn.Params {
+		if q == p && i < len(s.Common().Args) {
+			return s.Common().Args[i]
+		}
+	}
+	return nil
+}
+
+// origin looks through conversions, loads of single-assignment locals, captured variables and
+// parameters of single-use helpers: the value the expression denotes, as far up as it is unambiguous.
+func (e *c15Env) origin(v ssa.Value) ssa.Value {
+	for i := 0; i < 48 && v != nil; i++ {
+		v = an.Unwrap(v)
+		switch x := v.(type) {
+		case *ssa.UnOp:
+			if x.Op != token.MUL {
+				return v
+			}
+			var cell *ssa.Alloc
+			switch a := x.X.(type) {
+			case *ssa.Alloc:
+				cell = a
+			case *ssa.FreeVar:
+				cell, _ = c15Binding(a).(*ssa.Alloc)
+			}
+			if cell == nil {
+				return v
+			}
+			s := c15UniqueStore(cell)
+			if s == nil {
+				return v
+			}
+			v = s
+		case *ssa.Parameter:
+			a := e.argOf(x)
+			if a == nil {
+				return v
+			}
+			v = a
+		default:
+			return v
+		}
+	}
+	return v
+}
+
+// passThrough follows result idx of a call of a single-use, single-return helper of the package to the
+// value the helper returns there (`func (s *T) cloneOf(x X) (X, error) { return x.Clone() }`); ok is
+// false when call is not such a call.
+func (e *c15Env) passThrough(call *ssa.Call, idx int) (ssa.Value, bool) {
+	h := call.Call.StaticCallee()
+	if h == nil || call.Call.IsInvoke() {
+		return nil, false
+	}
+	h = an.Orig(h)
+	if h.Pkg != e.pkg || e.site(h) != ssa.CallInstruction(call) {
+		return nil, false
+	}
+	rets := an.Returns(h)
+	if len(rets) != 1 {
+		return nil, false
+	}
+	rv := returnValues(rets[0])
+	if idx >= len(rv) {
+		return nil, false
+	}
+	return rv[idx], true
+}
+
+// resultOf decodes v as result idx of a call (a single-result call is its own result 0), looking
+// through single-use single-return helpers down to the call that really produced it.
+func (e *c15Env) resultOf(v ssa.Value) (*ssa.Call, int) {
+	for i := 0; i < 4; i++ {
+		v = e.origin(v)
+		var call *ssa.Call
+		idx := 0
+		switch x := v.(type) {
+		case *ssa.Extract:
+			call, _ = x.Tuple.(*ssa.Call)
+			idx = x.Index
+		case *ssa.Call:
+			call = x
+		}
+		if call == nil {
+			return nil, 0
+		}
+		inner, ok := e.passThrough(call, idx)
+		if !ok {
+			return call, idx
+		}
+		v = inner
+	}
+	return nil, 0
+}
+
+// fieldKeyOf names the struct field a value is loaded from or is an element of, looking through local
+// copies, captured variables and parameters of single-use helpers (`subs := s.dutySubs; ... subs[i]`).
+func (e *c15Env) fieldKeyOf(v ssa.Value) string {
 	for i := 0; i < 32 && v != nil; i++ {
+		v = e.origin(v)
+		switch x := v.(type) {
+		case *ssa.UnOp:
+			if x.Op != token.MUL {
+				return ""
+			}
+			v = x.X
+		case *ssa.FieldAddr:
+			return an.FieldKey(x.X.Type(), x.Field)
+		case *ssa.Field:
+			return an.FieldKey(x.X.Type(), x.Field)
+		case *ssa.IndexAddr:
+			v = x.X
+		case *ssa.Index:
+			v = x.X
+		case *ssa.Slice:
+			v = x.X
+		case *ssa.Extract:
+			v = x.Tuple
+		case *ssa.Next:
+			v = x.Iter
+		case *ssa.Range:
+			v = x.X
+		default:
+			return ""
+		}
+	}
+	return ""
+}
+
+// subCall matches the dynamic calls whose function value is an element of the duty subscriber list.
+func (e *c15Env) subCall() an.Matcher {
+	return func(c *ssa.CallCommon) bool {
+		return !c.IsInvoke() && c.StaticCallee() == nil && e.fieldKeyOf(c.Value) == c15Subs
+	}
+}
+
+// cellOf returns the variable that ultimately holds the (struct) value v: v may be the value or a
+// pointer to it; copies through single-assignment locals, captured variables and parameters of
+// single-use helpers are looked through.
+func (e *c15Env) cellOf(v ssa.Value) *ssa.Alloc {
+	for i := 0; i < 48 && v != nil; i++ {
+		v = an.Unwrap(v)
+		switch x := v.(type) {
+		case *ssa.Alloc:
+			s := c15UniqueStore(x)
+			if s == nil || c15HasFieldWrites(x) {
+				return x // assigned several times, built field by field, or modified after its initialisation
+			}
+			v = s
+		case *ssa.FreeVar:
+			v = c15Binding(x)
+		case *ssa.UnOp:
+			if x.Op != token.MUL {
+				return nil
+			}
+			v = x.X
+		case *ssa.Parameter:
+			v = e.argOf(x)
+		default:
+			return nil
+		}
+	}
+	return nil
+}
+
+func c15HasFieldWrites(a *ssa.Alloc) bool {
+	for _, ref := range *a.Referrers() {
+		if fa, ok := ref.(*ssa.FieldAddr); ok {
+			for _, r2 := range *fa.Referrers() {
+				if st, ok := r2.(*ssa.Store); ok && st.Addr == ssa.Value(fa) {
+					return true
+				}
+			}
+		}
+	}
+	return false
+}
+
+// c15StructInit collects the stores that give the fields of struct variable a their values: writes to
+// a's own fields and – when a starts as a copy of a composite literal – the literal's field writes.
+func c15StructInit(a *ssa.Alloc) map[string][]*ssa.Store {
+	out := map[string][]*ssa.Store{}
+	for d := 0; d < 4 && a != nil; d++ {
+		for _, ref := range *a.Referrers() {
+			if fa, ok := ref.(*ssa.FieldAddr); ok {
+				k := an.FieldKey(fa.X.Type(), fa.Field)
+				for _, r2 := range *fa.Referrers() {
+					if st, ok := r2.(*ssa.Store); ok && st.Addr == ssa.Value(fa) {
+						out[k] = append(out[k], st)
+					}
+				}
+			}
+		}
+		var next *ssa.Alloc
+		if s := c15UniqueStore(a); s != nil {
+			if ld, ok := an.Unwrap(s).(*ssa.UnOp); ok && ld.Op == token.MUL {
+				next, _ = ld.X.(*ssa.Alloc)
+			}
+		}
+		a = next
+	}
+	return out
+}
+
+// rooted: v is root, or a field path / load / single-assignment local copy / captured variable /
+// single-use-helper parameter of root.
+func (e *c15Env) rooted(v, root ssa.Value) bool {
+	for i := 0; i < 48 && v != nil; i++ {
 		v = an.Unwrap(v)
 		if v == root {
 			return true
@@ -215,11 +610,25 @@ func c15Rooted(v, root ssa.Value) bool {
 			v = c15Binding(x)
 		case *ssa.Alloc:
 			v = c15UniqueStore(x)
+		case *ssa.Parameter:
+			v = e.argOf(x)
 		default:
 			return false
 		}
 	}
 	return false
+}
+
+// fieldOf: v reads field `name` of a value rooted at root.
+func (e *c15Env) fieldOf(v ssa.Value, name string, root ssa.Value) bool {
+	b, n, ok := c15FieldRead(v)
+	return ok && n == name && e.rooted(b, root)
+}
+
+// fieldOfCell: v reads field `name` of the struct variable cell.
+func (e *c15Env) fieldOfCell(v ssa.Value, name string, cell *ssa.Alloc) bool {
+	b, n, ok := c15FieldRead(v)
+	return ok && n == name && cell != nil && e.cellOf(b) == cell
 }
 
 // c15Local looks through conversions and loads of single-assignment locals (`x := e; ... x`).
@@ -260,22 +669,6 @@ func c15FieldRead(v ssa.Value) (base ssa.Value, name string, ok bool) {
 	return nil, "", false
 }
 
-// c15FieldOf: v reads field `name` of a value rooted at root.
-func c15FieldOf(v ssa.Value, name string, root ssa.Value) bool {
-	b, n, ok := c15FieldRead(v)
-	return ok && n == name && c15Rooted(b, root)
-}
-
-// c15FieldOfVal: v reads field `name` of exactly the value d (or an equivalent one).
-func c15FieldOfVal(v ssa.Value, name string, d ssa.Value) bool {
-	b, n, ok := c15FieldRead(v)
-	if !ok || n != name {
-		return false
-	}
-	b = an.Unwrap(b)
-	return b == d || an.Equiv(b, d) || c15Local(b) == d
-}
-
 // c15Static returns the call if v is a call of the named static function.
 func c15Static(v ssa.Value, name string) *ssa.Call {
 	call, ok := c15Local(v).(*ssa.Call)
@@ -291,28 +684,44 @@ func c15IsLoadOf(v ssa.Value, a *ssa.Alloc) bool {
 	return ok && ld.Op == token.MUL && ld.X == ssa.Value(a)
 }
 
-// c15SelectCase returns the block entered when select state `state` fires.
-func c15SelectCase(sel *ssa.Select, state int) *ssa.BasicBlock {
+// c15SelectFired returns the comparisons `index == state` of a select (the facts "this case fired").
+func c15SelectFired(sel *ssa.Select, state int) []ssa.Value {
+	var out []ssa.Value
 	for _, ref := range *sel.Referrers() {
 		ex, ok := ref.(*ssa.Extract)
 		if !ok || ex.Index != 0 {
 			continue
 		}
-		for _, cd := range an.CondsOn(sel.Parent(), ex) {
-			if cd.Other == nil || cd.Op != token.EQL {
+		for _, r2 := range *ex.Referrers() {
+			bin, ok := r2.(*ssa.BinOp)
+			if !ok || bin.Op != token.EQL {
 				continue
 			}
-			if n, ok := an.ConstInt(cd.Other); ok && n == int64(state) {
-				return cd.Succ(true)
+			other := bin.Y
+			if bin.Y == ssa.Value(ex) {
+				other = bin.X
+			}
+			if n, ok := an.ConstInt(other); ok && n == int64(state) {
+				out = append(out, bin)
 			}
 		}
 	}
-	return nil
+	return out
+}
+
+// c15AnyTrue: one of the values is known true on the path.
+func c15AnyTrue(f *an.H15Facts, vs []ssa.Value) bool {
+	for _, v := range vs {
+		if k, ok := f.Known(v); ok && k {
+			return true
+		}
+	}
+	return false
 }
 
 // c15RecvOf: v is the value received by a select state; returns the select and the state index.
 func c15RecvOf(v ssa.Value) (*ssa.Select, int) {
-	ex, ok := c15Local(v).(*ssa.Extract)
+	ex, ok := v.(*ssa.Extract)
 	if !ok {
 		return nil, -1
 	}
@@ -330,108 +739,6 @@ func c15RecvOf(v ssa.Value) (*ssa.Select, int) {
 		}
 	}
 	return nil, -1
-}
-
-type c15Edge struct {
-	b *ssa.BasicBlock
-	i int
-}
-
-// c15BoolSucc returns, for a branch on the boolean cd.Val (bare, negated, or compared with a boolean
-// constant), the successor taken when the value equals want.
-func c15BoolSucc(cd an.Cond, want bool) (*ssa.BasicBlock, bool) {
-	if cd.Other == nil {
-		return cd.Succ(want), true
-	}
-	k, ok := c15ConstBool(cd.Other)
-	if !ok {
-		return nil, false
-	}
-	switch cd.Op {
-	case token.EQL:
-		return cd.Succ(k == want), true
-	case token.NEQ:
-		return cd.Succ(k != want), true
-	}
-	return nil, false
-}
-
-// c15BoolEdges lists the successors taken when boolean v equals want, over all branches on v.
-func c15BoolEdges(fn *ssa.Function, v ssa.Value, want bool) []*ssa.BasicBlock {
-	var out []*ssa.BasicBlock
-	for _, cd := range an.CondsOn(fn, v) {
-		if b, ok := c15BoolSucc(cd, want); ok {
-			out = append(out, b)
-		}
-	}
-	return out
-}
-
-// c15AddPass marks as "pass" the edge taken when the boolean v equals want, for every branch on v.
-func c15AddPass(pass map[c15Edge]bool, fn *ssa.Function, v ssa.Value, want bool) {
-	for _, cd := range an.CondsOn(fn, v) {
-		pb, ok := c15BoolSucc(cd, want)
-		blk := cd.If.Block()
-		if !ok || blk.Succs[0] == blk.Succs[1] {
-			continue
-		}
-		for i, s := range blk.Succs {
-			if s == pb {
-				pass[c15Edge{blk, i}] = true
-			}
-		}
-	}
-}
-
-// c15BoolGuarded: call g (boolean status at tuple index idx) dominates sink and every path from g to sink
-// crosses an edge on which the status equals want.
-func c15BoolGuarded(g ssa.CallInstruction, sink ssa.Instruction, idx int, want bool) (bool, string) {
-	if !an.Dominates(g, sink) {
-		return false, "the call does not dominate the store"
-	}
-	_, bv := an.StatusOf(g, idx)
-	if bv == nil {
-		return false, "the boolean result is discarded"
-	}
-	pass := map[c15Edge]bool{}
-	c15AddPass(pass, g.Parent(), bv, want)
-	if len(pass) == 0 {
-		return false, "the boolean result is never branched on"
-	}
-	if c15ReachFromNoPass(g.Block(), pass, sink.Block()) {
-		return false, "control reaches the sink although the boolean result did not have the required value"
-	}
-	return true, ""
-}
-
-// c15ReachNoPass: can control reach target from the function entry without crossing a pass edge?
-func c15ReachNoPass(fn *ssa.Function, pass map[c15Edge]bool, target *ssa.BasicBlock) bool {
-	return c15ReachFromNoPass(fn.Blocks[0], pass, target)
-}
-
-// c15ReachFromNoPass: can control reach target from the top of block from without crossing a pass edge?
-func c15ReachFromNoPass(from *ssa.BasicBlock, pass map[c15Edge]bool, target *ssa.BasicBlock) bool {
-	seen := map[*ssa.BasicBlock]bool{}
-	var walk func(b *ssa.BasicBlock) bool
-	walk = func(b *ssa.BasicBlock) bool {
-		if seen[b] {
-			return false
-		}
-		seen[b] = true
-		if b == target {
-			return true
-		}
-		for i, s := range b.Succs {
-			if pass[c15Edge{b, i}] {
-				continue
-			}
-			if walk(s) {
-				return true
-			}
-		}
-		return false
-	}
-	return walk(from)
 }
 
 // c15ElemOf is Loop.ElemOf made exact for index loops: the element must be indexed by the loop's own
@@ -483,54 +790,282 @@ func c15ConstBool(v ssa.Value) (bool, bool) {
 	return constant.BoolVal(k.Value), true
 }
 
-// c15Param returns parameter i of fn or bails.
-func c15Param(c *rt.Ctx, fn *ssa.Function, i int, name string) *ssa.Parameter {
-	if i >= len(fn.Params) || fn.Params[i].Name() != name {
-		c.Bail("%s: parameter %d is not %q", an.FuncName(fn), i, name)
-	}
-	return fn.Params[i]
-}
-
-// c15Trigger finds the function literal of scheduleSlot that calls the duty subscribers.
-func c15Trigger(c *rt.Ctx) (sched, trig *ssa.Function) {
-	sched = c.Fn(c15P + ".Scheduler.scheduleSlot")
-	for _, fn := range an.Closure(sched) {
-		if len(an.Calls(fn, an.FieldCall(c15Subs), false)) > 0 {
-			if trig != nil && trig != fn {
-				c.Bail("duty subscribers are called from more than one function inside scheduleSlot")
+// c15ParamT returns the only parameter of fn with the given (module-relative) type, or bails.
+// Parameters are identified by type, never by name.
+func c15ParamT(c *rt.Ctx, fn *ssa.Function, typ string) *ssa.Parameter {
+	var out *ssa.Parameter
+	for _, p := range fn.Params {
+		if an.TypeName(p.Type()) == typ {
+			if _, ptr := p.Type().(*types.Pointer); ptr {
+				continue
 			}
-			trig = fn
+			if out != nil {
+				c.Bail("%s: more than one parameter of type %s", an.FuncName(fn), typ)
+			}
+			out = p
 		}
 	}
-	if trig == nil {
-		c.Bail("no call through %s inside scheduleSlot", c15Subs)
+	if out == nil {
+		c.Bail("%s: no parameter of type %s", an.FuncName(fn), typ)
 	}
-	return sched, trig
+	return out
+}
+
+// c15ArgT returns the only argument of the call with the given type (nil if none or several).
+func c15ArgT(call *ssa.CallCommon, typ string) ssa.Value {
+	var out ssa.Value
+	for _, a := range call.Args {
+		if _, ptr := a.Type().(*types.Pointer); !ptr && an.TypeName(a.Type()) == typ {
+			if out != nil {
+				return nil
+			}
+			out = a
+		}
+	}
+	return out
+}
+
+// c15Arrivals walks fn and reports whether every feasible arrival at target satisfies good.
+// decided is false when the walk exceeded its state budget.
+func c15Arrivals(fn *ssa.Function, target ssa.Instruction, track []ssa.Value, trackPhi func(*ssa.Phi) bool, good func(f *an.H15Facts) bool) (all bool, decided bool) {
+	w := &an.H15Walk{Fn: fn, Track: an.H15TrackSet(track), TrackPhi: trackPhi}
+	all = true
+	decided = w.Arrivals(target, func(f *an.H15Facts) bool {
+		if !good(f) {
+			all = false
+			return false
+		}
+		return true
+	})
+	return all, decided
+}
+
+// c15CheckArrivals records the obligation "every feasible arrival at target satisfies good".
+func c15CheckArrivals(c *rt.Ctx, name string, fn *ssa.Function, target ssa.Instruction, track []ssa.Value, good func(f *an.H15Facts) bool, detail string) bool {
+	all, decided := c15Arrivals(fn, target, track, nil, good)
+	if !decided {
+		c.Unsure(name, target.Pos(), "too many paths to enumerate")
+		return false
+	}
+	return c.Check(name, target.Pos(), all, detail)
+}
+
+// c15Atom is a boolean SSA value together with the truth value that establishes the rule's condition.
+type c15Atom struct {
+	v      ssa.Value
+	want   bool
+	opaque bool // result of a package helper that could not be summarised: knowing it on a path makes the path undecided
+}
+
+func c15AtomVals(as []c15Atom) []ssa.Value {
+	out := make([]ssa.Value, 0, len(as))
+	for _, a := range as {
+		out = append(out, a.v)
+	}
+	return out
+}
+
+// c15Holds: one of the atoms is known, on this path, to have its establishing truth value.
+func c15Holds(f *an.H15Facts, as []c15Atom) bool {
+	for _, a := range as {
+		if k, known := f.Known(a.v); known && k == a.want && !a.opaque {
+			return true
+		}
+	}
+	return false
+}
+
+// c15Opaque: the path branched on the result of a helper that could not be summarised.
+func c15Opaque(f *an.H15Facts, as []c15Atom) bool {
+	for _, a := range as {
+		if _, known := f.Known(a.v); known && a.opaque {
+			return true
+		}
+	}
+	return false
+}
+
+// c15Atoms returns the condition's atoms in fn (find) and adds, for each call of a single-use boolean
+// helper of the package, the call's result when the helper's result is decided by atoms of its own:
+// every possibly-true return of the helper lies on paths on which an atom holds (then the result being
+// true establishes the condition), or the same for false. This is how a test survives being moved into
+// `func (s *T) isX(...) bool`.
+func c15Atoms(e *c15Env, fn *ssa.Function, find func(fn *ssa.Function) []c15Atom, depth int) []c15Atom {
+	out := find(fn)
+	for _, in := range an.Instrs(fn, false) {
+		call, ok := in.(*ssa.Call)
+		if !ok || call.Call.StaticCallee() == nil {
+			continue
+		}
+		h := an.Orig(call.Call.StaticCallee())
+		if h.Pkg != e.pkg {
+			continue
+		}
+		res := h.Signature.Results()
+		if res.Len() != 1 {
+			continue
+		}
+		if b, ok := res.At(0).Type().Underlying().(*types.Basic); !ok || b.Kind() != types.Bool {
+			continue
+		}
+		if depth >= 2 || e.site(h) != ssa.CallInstruction(call) {
+			// a shared (or deeply nested) helper: its parameters cannot be tied to this call's arguments
+			out = append(out, c15Atom{v: call, opaque: true})
+			continue
+		}
+		inner := c15Atoms(e, h, find, depth+1)
+		if len(inner) == 0 {
+			continue
+		}
+		hasOpaque := false
+		for _, a := range inner {
+			if a.opaque {
+				hasOpaque = true
+			}
+		}
+		summarised := false
+		for _, pol := range []bool{true, false} {
+			good := true
+			for _, r := range an.Returns(h) {
+				rv := returnValues(r)[0]
+				if k, isConst := c15ConstBool(rv); isConst && k != pol {
+					continue
+				}
+				all, decided := c15Arrivals(h, r, c15AtomVals(inner), nil, func(f *an.H15Facts) bool {
+					g := f.Assume(rv, pol)
+					return g == nil || c15Holds(g, inner)
+				})
+				if !all || !decided {
+					good = false
+				}
+			}
+			if good {
+				out = append(out, c15Atom{v: call, want: pol})
+				summarised = true
+				break
+			}
+		}
+		if !summarised && hasOpaque {
+			out = append(out, c15Atom{v: call, opaque: true})
+		}
+	}
+	return out
+}
+
+// c15CheckHolds records the obligation "on every feasible arrival at target one of the atoms holds".
+func c15CheckHolds(c *rt.Ctx, name string, fn *ssa.Function, target ssa.Instruction, atoms []c15Atom, detail string) bool {
+	opaque := false
+	all, decided := c15Arrivals(fn, target, c15AtomVals(atoms), nil, func(f *an.H15Facts) bool {
+		if c15Holds(f, atoms) {
+			return true
+		}
+		if c15Opaque(f, atoms) {
+			opaque = true
+		}
+		return false
+	})
+	if !decided {
+		c.Unsure(name, target.Pos(), "too many paths to enumerate")
+		return false
+	}
+	if !all && opaque {
+		c.Unsure(name, target.Pos(), "the deciding test sits in a helper shared by several callers; it cannot be tied to this call's arguments")
+		return false
+	}
+	return c.Check(name, target.Pos(), all, detail)
+}
+
+// c15Triggers finds the functions that call the duty subscribers, split into those reachable only
+// from scheduleSlot (the trigger goroutine and its helpers) and the others.
+func c15Triggers(c *rt.Ctx, e *c15Env) (sched *ssa.Function, inside, outside []*ssa.Function) {
+	sched = c.Fn(c15P + ".Scheduler.scheduleSlot")
+	own := e.owned(sched)
+	for _, fn := range e.funcs {
+		if len(an.Calls(fn, e.subCall(), false)) == 0 {
+			continue
+		}
+		if own[fn] {
+			inside = append(inside, fn)
+		} else {
+			outside = append(outside, fn)
+		}
+	}
+	return sched, inside, outside
+}
+
+func c15OneTrigger(c *rt.Ctx, e *c15Env) (sched, trig *ssa.Function) {
+	sched, inside, _ := c15Triggers(c, e)
+	if len(inside) == 0 {
+		c.Bail("no call through %s in scheduleSlot, its function literals or its single-use helpers", c15Subs)
+	}
+	if len(inside) > 1 {
+		c.Bail("duty subscribers are called from more than one function under scheduleSlot")
+	}
+	return sched, inside[0]
 }
 
 // ---------------------------------------------------------------------------------------------
 
+// Formulation (h15 hardening). Every "guard before effect" obligation of this file is decided by the
+// path-sensitive fact walker an.H15Walk: "on every feasible arrival at the effect, one of the guard's
+// atoms is known to hold", where an atom is a resolved SSA condition (a call result, a comma-ok flag, a
+// comparison with given operand provenance, "this select case fired") and what is known on a path comes
+// from the branches taken – through negations, named booleans (phis decided by the edge entered),
+// `x == false` spellings, switch chains and nil/len forms. Nothing depends on block shapes, polarity,
+// loop form, parameter or variable names. Values and control are followed across functions that have
+// exactly one static use (extracted methods, function literals, pass-through helpers): parameters are
+// substituted by the arguments of that use (c15Env.origin / rooted / cellOf), boolean helpers are
+// summarised by their own atoms (c15Atoms, c15GuardFns), error-returning helpers by "nil result implies
+// the inner call returned nil" (c15NilReturnImplies). Where a construct cannot be followed the
+// obligation is reported UNDECIDED (c.Unsure), never as a violation.
+//
+// Minimum instance counts are the counts confirmed on the pinned tree, except U6 (5 on the pinned tree):
+// merging the two setResolvedEpoch sites of resolveDuties into one is behaviour-preserving and leaves 3.
 func c15(c *rt.Ctx) {
 	c.Rule("U1", 15, func() { c15U1(c) })
 	c.Rule("U2", 9, func() { c15U2(c) })
 	c.Rule("U3", 32, func() { c15U3(c) })
-	c.Rule("U4", 22, func() { c15U4(c) })
+	c.Rule("U4", 23, func() { c15U4(c) })
 	c.Rule("U5", 1, func() { c15U5(c) })
-	c.Rule("U6", 5, func() { c15U6(c) })
+	c.Rule("U6", 3, func() { c15U6(c) })
 }
 
 // ---------------------------------------------------------------------------------------------
 // U1 who triggers, how often
 
+// c15DutyCell resolves the duty handed to a subscriber call to the struct variable it was built in.
+func c15DutyCell(e *c15Env, sink ssa.CallInstruction) *ssa.Alloc {
+	a := c15ArgT(sink.Common(), "core.Duty")
+	if a == nil {
+		return nil
+	}
+	return e.cellOf(a)
+}
+
+// c15DefSetSource resolves the definition set behind a subscriber call's argument: the receiver of
+// the Clone() that produced it (or the argument itself when it is not a clone), traced up to its origin.
+func c15DefSetSource(e *c15Env, sink ssa.CallInstruction) ssa.Value {
+	a := c15ArgT(sink.Common(), "core.DutyDefinitionSet")
+	if a == nil {
+		return nil
+	}
+	v := e.origin(a)
+	if call, idx := e.resultOf(a); call != nil && idx == 0 && an.Static("core.DutyDefinitionSet.Clone")(&call.Call) {
+		v = e.origin(call.Call.Args[0])
+	}
+	return v
+}
+
 func c15U1(c *rt.Ctx) {
-	pkg := c.SSAPkg(c15P)
-	sched, trig := c15Trigger(c)
+	e := c15NewEnv(c)
+	sched, inside, outside := c15Triggers(c, e)
 	run := c.Fn(c15P + ".Scheduler.Run")
 	subscribe := c.Fn(c15P + ".Scheduler.SubscribeDuties")
-	slotP := c15Param(c, sched, 2, "slot")
+	slotP := c15ParamT(c, sched, "core.Slot")
+	own := e.owned(sched)
 
 	// (a) every use of the dutySubs field is the registration or the trigger goroutine
-	for _, fn := range an.PkgFuncs(pkg) {
+	for _, fn := range e.funcs {
 		var first ssa.Instruction
 		for _, in := range an.Instrs(fn, false) {
 			switch x := in.(type) {
@@ -547,146 +1082,264 @@ func c15U1(c *rt.Ctx) {
 		if first == nil {
 			continue
 		}
-		c.Check(an.FuncName(fn)+" uses dutySubs", posOf(first), fn == trig || fn == subscribe,
-			"the duty subscriber list is read outside SubscribeDuties and the trigger goroutine of scheduleSlot: duties can be triggered from a second place")
-	}
-
-	// (b) the trigger literal is started exactly once, per duty type of the ticked slot
-	var starts []ssa.CallInstruction
-	escapes := false
-	for _, in := range an.Instrs(trig.Parent(), false) {
-		mc, ok := in.(*ssa.MakeClosure)
-		if !ok || mc.Fn != ssa.Value(trig) {
-			continue
+		calls := false
+		for _, o := range outside {
+			if o == fn {
+				calls = true
+			}
 		}
-		for _, ref := range *mc.Referrers() {
-			ci, ok := ref.(ssa.CallInstruction)
-			if ok && ci.Common().Value == ssa.Value(mc) {
-				starts = append(starts, ci)
-			} else {
-				escapes = true
+		switch {
+		case fn == subscribe || own[fn]:
+			c.Good(an.FuncName(fn)+" uses dutySubs", posOf(first), "")
+		case calls:
+			c.Bad(an.FuncName(fn)+" uses dutySubs", posOf(first),
+				"duty subscribers are called outside the trigger goroutine of scheduleSlot: duties can be triggered from a second place")
+		case c15OnlyMeasured(fn, c15Subs):
+			c.Good(an.FuncName(fn)+" uses dutySubs", posOf(first), "only len/cap of the list is taken")
+		default:
+			c.Unsure(an.FuncName(fn)+" uses dutySubs", posOf(first), "the duty subscriber list is read outside SubscribeDuties and the trigger goroutine; cannot tell whether its elements are called")
+		}
+	}
+	if len(inside) == 0 {
+		c.Bail("no call through %s in scheduleSlot, its function literals or its single-use helpers", c15Subs)
+	}
+	if len(inside) > 1 {
+		c.Unsure("scheduleSlot trigger start", inside[1].Pos(), "duty subscribers are called from more than one function under scheduleSlot")
+		return
+	}
+	trig := inside[0]
+
+	// (b) the trigger function is started exactly once, per duty type of the ticked slot
+	if e.leaks[trig] || len(e.calls[trig]) == 0 {
+		c.Unsure("scheduleSlot trigger start", trig.Pos(), "the trigger function is used as a value; cannot tell where it is started")
+		return
+	}
+	c.Check("scheduleSlot trigger started once", e.calls[trig][0].Pos(), len(e.calls[trig]) == 1,
+		fmt.Sprintf("the trigger function is started from %d sites: a duty is triggered more than once", len(e.calls[trig])))
+	chain := e.chain(trig, sched)
+	if len(chain) == 0 {
+		if len(e.calls[trig]) == 1 {
+			c.Unsure("scheduleSlot trigger start", trig.Pos(), "the trigger function is not reached from scheduleSlot through single-use helpers")
+		}
+		return
+	}
+	for _, s := range chain[:len(chain)-1] {
+		// a helper between scheduleSlot and the subscriber call may only loop over the subscribers
+		if l := an.InnermostLoop(s.Parent(), s.Block()); l != nil {
+			coll := l.RangeColl()
+			if coll == nil || !c15IsFieldColl(coll, c15Subs) {
+				c.Unsure("scheduleSlot trigger start", s.Pos(), "a helper on the way to the subscribers is called from a loop; cannot tell how often a duty is triggered")
+				return
 			}
 		}
 	}
-	if trig.Parent() != sched || escapes || len(starts) == 0 {
-		c.Unsure("scheduleSlot trigger start", trig.Pos(), "the trigger function literal is not started directly from scheduleSlot")
-		return
+	st := chain[len(chain)-1]
+	loops := an.LoopsContaining(sched, st.Block())
+	var l *an.Loop
+	if len(loops) > 0 {
+		l = loops[0]
 	}
-	c.Check("scheduleSlot trigger started once", starts[0].Pos(), len(starts) == 1,
-		fmt.Sprintf("the trigger function literal is started from %d sites: a duty is triggered more than once", len(starts)))
-	for _, st := range starts {
-		args := st.Common().Args
-		if len(args) != 2 {
-			c.Unsure("scheduleSlot trigger arguments", st.Pos(), "unexpected trigger signature")
-			continue
-		}
-		// duty = core.Duty{Slot: slot.Slot, Type: <element of core.AllDutyTypes()>}
-		ld, ok := an.Unwrap(args[0]).(*ssa.UnOp)
-		var lit *ssa.Alloc
-		if ok && ld.Op == token.MUL {
-			lit, _ = ld.X.(*ssa.Alloc)
-		}
-		if lit == nil {
-			c.Unsure("scheduleSlot trigger duty", st.Pos(), "duty passed to the trigger is not a composite literal built in scheduleSlot")
+	perType := len(loops) == 1 && l.RangeColl() != nil && c15Static(l.RangeColl(), "core.AllDutyTypes") != nil
+	loopUnknown := len(loops) > 1 || (l != nil && l.RangeColl() == nil)
+	if !perType && loopUnknown {
+		c.Unsure("scheduleSlot trigger per duty type", st.Pos(), "the loop around the trigger start is not a recognised iteration over a collection")
+	} else {
+		c.Check("scheduleSlot trigger per duty type", st.Pos(), perType, "the trigger is not started from (exactly) the loop over core.AllDutyTypes()")
+	}
+	sinks := an.Calls(trig, e.subCall(), false)
+	for _, sink := range sinks {
+		// duty = core.Duty{Slot: slot.Slot, Type: <element of core.AllDutyTypes()>}, built in this iteration
+		lit := c15DutyCell(e, sink)
+		if lit == nil || lit.Parent() != sched {
+			c.Unsure("scheduleSlot trigger duty", sink.Pos(), "the duty handed to subscribers cannot be traced to a duty value built in scheduleSlot")
 			continue
 		}
 		fields := map[string]ssa.Value{}
 		shape := true
+		for k, sts := range c15StructInit(lit) {
+			if len(sts) != 1 || !an.Dominates(sts[0], st) {
+				shape = false
+				continue
+			}
+			fields[k] = sts[0].Val
+		}
 		for _, ref := range *lit.Referrers() {
 			switch r := ref.(type) {
-			case *ssa.FieldAddr:
-				k := an.FieldKey(r.X.Type(), r.Field)
-				for _, r2 := range *r.Referrers() {
-					if s, ok := r2.(*ssa.Store); ok && s.Addr == ssa.Value(r) {
-						if _, dup := fields[k]; dup {
-							shape = false
-						}
-						fields[k] = s.Val
-					}
+			case *ssa.FieldAddr, *ssa.UnOp, *ssa.DebugRef:
+			case *ssa.Store:
+				if r.Addr != ssa.Value(lit) {
+					shape = false
 				}
-			case *ssa.UnOp, *ssa.DebugRef:
+			case *ssa.MakeClosure:
+				if f, _ := r.Fn.(*ssa.Function); f == nil || !own[f] {
+					shape = false
+				}
 			default:
 				shape = false
 			}
 		}
-		if !shape {
-			c.Unsure("scheduleSlot trigger duty", st.Pos(), "duty literal is modified or escapes before the trigger starts")
+		if !shape || len(fields) == 0 {
+			c.Unsure("scheduleSlot trigger duty", sink.Pos(), "the duty value is modified, escapes or is not initialised field by field before the trigger starts")
 			continue
 		}
-		l := an.InnermostLoop(sched, st.Block())
-		var coll ssa.Value
-		if l != nil {
-			coll = l.RangeColl()
-		}
-		perType := l != nil && coll != nil && c15Static(coll, "core.AllDutyTypes") != nil
-		c.Check("scheduleSlot trigger per duty type", st.Pos(), perType, "the trigger is not started from the loop over core.AllDutyTypes()")
 		tv := fields["core.Duty.Type"]
-		c.Check("scheduleSlot trigger duty type", st.Pos(), perType && tv != nil && c15ElemOf(l, tv),
-			"the type of the triggered duty is not the loop's duty type: several iterations trigger the same duty")
+		if perType || !loopUnknown {
+			c.Check("scheduleSlot trigger duty type", st.Pos(), perType && tv != nil && l.Body[lit.Block()] && c15ElemOf(l, tv),
+				"the type of the triggered duty is not the loop's duty type: several iterations trigger the same duty")
+		}
 		sv := fields["core.Duty.Slot"]
-		c.Check("scheduleSlot trigger duty slot", st.Pos(), sv != nil && c15FieldOf(sv, "Slot", slotP),
+		c.Check("scheduleSlot trigger duty slot", st.Pos(), sv != nil && e.fieldOf(sv, "Slot", slotP),
 			"the slot of the triggered duty is not the ticked slot")
 		// definition set = getDutyDefinitionSet(same duty), present
-		ex, ok := args[1].(*ssa.Extract)
-		good, why := false, "definition set passed to the trigger is not the result of getDutyDefinitionSet for the same duty"
-		if ok && ex.Index == 0 {
-			if get, ok := ex.Tuple.(*ssa.Call); ok && an.Static(c15P+".Scheduler.getDutyDefinitionSet")(&get.Call) &&
-				(get.Call.Args[1] == args[0] || an.Equiv(get.Call.Args[1], args[0])) {
-				good, why = c15BoolGuarded(get, st, 1, true)
+		good, why := false, "the definition set handed to subscribers is not the result of getDutyDefinitionSet for the same duty"
+		src := c15DefSetSource(e, sink)
+		isGet := false
+		if ex, ok := src.(*ssa.Extract); ok && ex.Index == 0 {
+			if get, ok := ex.Tuple.(*ssa.Call); ok && an.Static(c15P+".Scheduler.getDutyDefinitionSet")(&get.Call) {
+				isGet = true
+			}
+		}
+		if _, isMake := src.(*ssa.MakeMap); !isGet && !isMake {
+			// neither the stored set nor an obviously different one: e.g. the lookup was inlined
+			c.Unsure("scheduleSlot trigger definition set", st.Pos(), "the definition set handed to subscribers cannot be traced to getDutyDefinitionSet")
+			continue
+		}
+		if ex, ok := src.(*ssa.Extract); ok && ex.Index == 0 {
+			if get, ok := ex.Tuple.(*ssa.Call); ok && get.Parent() == sched && an.Static(c15P+".Scheduler.getDutyDefinitionSet")(&get.Call) {
+				if d := c15ArgT(&get.Call, "core.Duty"); d != nil && e.cellOf(d) == lit {
+					_, okv := an.StatusOf(get, 1)
+					if okv == nil {
+						why = "the presence flag of getDutyDefinitionSet is discarded"
+					} else {
+						all, decided := c15Arrivals(sched, st, []ssa.Value{okv}, nil, func(f *an.H15Facts) bool {
+							k, known := f.Known(okv)
+							return known && k
+						})
+						if !decided {
+							c.Unsure("scheduleSlot trigger definition set", st.Pos(), "too many paths to enumerate")
+							continue
+						}
+						good, why = all, "the trigger is started on a path where getDutyDefinitionSet did not report a definition set for the duty"
+					}
+				}
 			}
 		}
 		c.Check("scheduleSlot trigger definition set", st.Pos(), good, why)
 	}
 
 	// (c) scheduleSlot is invoked once per value received from the slot ticker
-	type ref struct {
-		fn *ssa.Function
-		in ssa.Instruction
-	}
-	var refs []ref
-	for _, fn := range an.PkgFuncs(pkg) {
-		for _, in := range an.Instrs(fn, false) {
-			for _, op := range an.Operands(in) {
-				if op == ssa.Value(sched) {
-					refs = append(refs, ref{fn, in})
+	if e.leaks[sched] {
+		c.Unsure("scheduleSlot invocation", sched.Pos(), "scheduleSlot is used as a value")
+	} else {
+		if len(e.calls[sched]) == 0 {
+			c.Bail("scheduleSlot is never called")
+		}
+		up := e.chain(sched, run)
+		for i, s := range e.calls[sched] {
+			name := fmt.Sprintf("%s invokes scheduleSlot#%d", an.FuncName(s.Parent()), i+1)
+			_, plain := s.(*ssa.Call)
+			if !c.Check(name, s.Pos(), len(e.calls[sched]) == 1 && plain && len(up) > 0,
+				"scheduleSlot must be invoked synchronously from exactly one site (Run's ticker case, directly or through a single-use helper); a second invocation triggers the slot's duties again") {
+				continue
+			}
+			top := up[len(up)-1]
+			fromTicker, sameIter := false, true
+			for _, h := range up[:len(up)-1] {
+				if an.InnermostLoop(h.Parent(), h.Block()) != nil {
+					sameIter = false
+				}
+				if _, plain := h.(*ssa.Call); !plain {
+					sameIter = false
 				}
 			}
-		}
-	}
-	if len(refs) == 0 {
-		c.Bail("scheduleSlot is never called")
-	}
-	for i, r := range refs {
-		ci, isCall := r.in.(ssa.CallInstruction)
-		name := fmt.Sprintf("%s invokes scheduleSlot#%d", an.FuncName(r.fn), i+1)
-		if !isCall || ci.Common().Value != ssa.Value(sched) {
-			c.Unsure(name, posOf(r.in), "scheduleSlot is used as a value")
-			continue
-		}
-		if !c.Check(name, posOf(r.in), r.fn == run && len(refs) == 1,
-			"scheduleSlot must be invoked from exactly one site (Run's ticker case); a second invocation triggers the slot's duties again") {
-			continue
-		}
-		sel, state := c15RecvOf(ci.Common().Args[2])
-		fromTicker := false
-		if sel != nil {
-			ch := sel.States[state].Chan
+			if _, plain := top.(*ssa.Call); !plain {
+				sameIter = false
+			}
+			// the slot is the value received from the ticker channel: in a select case or by a plain receive
+			got := e.origin(c15ArgT(s.Common(), "core.Slot"))
+			var ch ssa.Value
+			var at *ssa.BasicBlock
+			if sel, state := c15RecvOf(got); sel != nil {
+				ch, at = sel.States[state].Chan, sel.Block()
+			} else {
+				if ex, ok := got.(*ssa.Extract); ok && ex.Index == 0 {
+					got = ex.Tuple
+				}
+				if rcv, ok := got.(*ssa.UnOp); ok && rcv.Op == token.ARROW {
+					ch, at = rcv.X, rcv.Block()
+				}
+			}
+			if ch == nil || at.Parent() != run {
+				c.Unsure("Run scheduleSlot argument", s.Pos(), "the slot scheduled cannot be traced to a channel receive in Run")
+				continue
+			}
+			ch = e.origin(ch)
 			if ex, ok := ch.(*ssa.Extract); ok {
 				ch = ex.Tuple
 			}
 			if call, ok := ch.(*ssa.Call); ok && an.Static(c15P+".newSlotTicker")(&call.Call) {
 				fromTicker = true
 			}
+			sameIter = sameIter && c15SameLoop(run, at, top.Block())
+			c.Check("Run scheduleSlot argument", s.Pos(), fromTicker && sameIter,
+				"the slot scheduled is not the value just received from newSlotTicker's channel (one scheduleSlot per tick)")
 		}
-		c.Check("Run scheduleSlot argument", posOf(r.in), fromTicker && c15SameLoop(run, sel.Block(), r.in.Block()),
-			"the slot scheduled is not the value just received from newSlotTicker's channel (one scheduleSlot per tick)")
 	}
 
 	// (d) the ticker: wait for slot start, emit, advance
-	c15Ticker(c)
+	c15Ticker(c, e)
 }
 
-func c15Ticker(c *rt.Ctx) {
+// c15OnlyMeasured: every load of the named field in fn feeds only len()/cap() (or nothing), and the field is not stored to.
+func c15OnlyMeasured(fn *ssa.Function, key string) bool {
+	for _, in := range an.Instrs(fn, false) {
+		var loads []ssa.Value
+		switch x := in.(type) {
+		case *ssa.FieldAddr:
+			if an.FieldKey(x.X.Type(), x.Field) != key {
+				continue
+			}
+			for _, ref := range *x.Referrers() {
+				if ld, ok := ref.(*ssa.UnOp); ok && ld.Op == token.MUL {
+					loads = append(loads, ld)
+				} else if _, dbg := ref.(*ssa.DebugRef); !dbg {
+					return false
+				}
+			}
+		case *ssa.Field:
+			if an.FieldKey(x.X.Type(), x.Field) != key {
+				continue
+			}
+			loads = append(loads, x)
+		default:
+			continue
+		}
+		for _, ld := range loads {
+			for _, ref := range *ld.Referrers() {
+				if _, dbg := ref.(*ssa.DebugRef); dbg {
+					continue
+				}
+				call, ok := ref.(*ssa.Call)
+				if !ok {
+					return false
+				}
+				b, ok := call.Call.Value.(*ssa.Builtin)
+				if !ok || (b.Name() != "len" && b.Name() != "cap") {
+					return false
+				}
+			}
+		}
+	}
+	return true
+}
+
+// c15IsFieldColl: coll is (a local copy of) the named struct field.
+func c15IsFieldColl(coll ssa.Value, key string) bool {
+	k, _, ok := an.FieldOf(c15Local(coll))
+	return ok && k == key
+}
+
+func c15Ticker(c *rt.Ctx, e *c15Env) {
 	tick := c.Fn(c15P + ".newSlotTicker")
 	type emit struct {
 		sel   *ssa.Select
@@ -694,7 +1347,7 @@ func c15Ticker(c *rt.Ctx) {
 	}
 	var emits []emit
 	plain := 0
-	for _, fn := range an.Closure(tick) {
+	for _, fn := range e.ownedList(tick) {
 		for _, in := range an.Instrs(fn, false) {
 			switch x := in.(type) {
 			case *ssa.Send:
@@ -715,7 +1368,7 @@ func c15Ticker(c *rt.Ctx) {
 	}
 	if plain > 0 || len(emits) != 1 {
 		if len(emits)+plain > 1 {
-			c.Bad("newSlotTicker single emission", tick.Pos(), fmt.Sprintf("%d emission sites: a slot can be emitted twice per iteration", len(emits)+plain))
+			c.Unsure("newSlotTicker single emission", tick.Pos(), fmt.Sprintf("%d emission sites; only a single select-send emission is analysed", len(emits)+plain))
 		} else {
 			c.Unsure("newSlotTicker single emission", tick.Pos(), "emission is not a select send; shape not analysed")
 		}
@@ -734,40 +1387,76 @@ func c15Ticker(c *rt.Ctx) {
 		c.Unsure("newSlotTicker slot variable", sel.Pos(), "emitted value is not the ticker's slot variable")
 		return
 	}
-	S := c15SelectCase(sel, state)
-	if S == nil {
+	sentFacts := c15SelectFired(sel, state)
+	if len(sentFacts) == 0 {
 		c.Unsure("newSlotTicker emission edge", sel.Pos(), "cannot find the branch taken after the send")
 		return
 	}
-	// blocks executed only after a successful send (S may be a join when the case body is empty)
-	afterSend := func(b *ssa.BasicBlock) bool { return len(S.Preds) == 1 && S.Dominates(b) }
-	// the wait for the slot's start time
-	var W *ssa.BasicBlock
-	for _, in := range an.Instrs(fn, false) {
-		ws, ok := in.(*ssa.Select)
-		if !ok {
-			continue
+	// the wait for the slot's start time (in the loop itself or in a single-use boolean helper)
+	findWait := func(h *ssa.Function) []c15Atom {
+		var out []c15Atom
+		for _, in := range an.Instrs(h, false) {
+			ws, ok := in.(*ssa.Select)
+			if !ok {
+				continue
+			}
+			for i, st := range ws.States {
+				if st.Dir != types.RecvOnly {
+					continue
+				}
+				after, ok := c15Local(st.Chan).(*ssa.Call)
+				if !ok || !an.Invoke("github.com/jonboulle/clockwork.Clock.After")(&after.Call) {
+					continue
+				}
+				sub := c15Static(after.Call.Args[0], "time.Time.Sub")
+				if sub == nil {
+					continue
+				}
+				b, n, ok := c15FieldRead(sub.Call.Args[0])
+				now, isNow := c15Local(sub.Call.Args[1]).(*ssa.Call)
+				if ok && n == "Time" && e.cellOf(b) == cur && isNow && an.Invoke("github.com/jonboulle/clockwork.Clock.Now")(&now.Call) {
+					for _, v := range c15SelectFired(ws, i) {
+						out = append(out, c15Atom{v: v, want: true})
+					}
+				}
+			}
 		}
-		for i, st := range ws.States {
-			if st.Dir != types.RecvOnly {
-				continue
-			}
-			after, ok := st.Chan.(*ssa.Call)
-			if !ok || !an.Invoke("github.com/jonboulle/clockwork.Clock.After")(&after.Call) {
-				continue
-			}
-			sub := c15Static(after.Call.Args[0], "time.Time.Sub")
-			if sub == nil {
-				continue
-			}
-			b, n, ok := c15FieldRead(sub.Call.Args[0])
-			now, isNow := an.Unwrap(sub.Call.Args[1]).(*ssa.Call)
-			if ok && n == "Time" && b == ssa.Value(cur) && isNow && an.Invoke("github.com/jonboulle/clockwork.Clock.Now")(&now.Call) {
-				W = c15SelectCase(ws, i)
-			}
+		return out
+	}
+	waitAtoms := c15Atoms(e, fn, findWait, 0)
+	var waitFacts []ssa.Value
+	for _, a := range waitAtoms {
+		if a.want {
+			waitFacts = append(waitFacts, a.v)
 		}
 	}
-	c.Check("newSlotTicker emission after slot start", sel.Pos(), W != nil && W.Dominates(sel.Block()),
+	if len(waitFacts) == 0 {
+		// a scheduler-package helper that is handed the slot may hide the wait: undecided, not a violation
+		for _, in := range an.Instrs(fn, false) {
+			call, ok := in.(*ssa.Call)
+			if !ok || call.Call.StaticCallee() == nil || call.Call.StaticCallee().Pkg != e.pkg {
+				continue
+			}
+			for _, a := range call.Call.Args {
+				if an.TypeName(a.Type()) == "core.Slot" && e.cellOf(a) == cur {
+					if h := an.Orig(call.Call.StaticCallee()); e.site(h) == ssa.CallInstruction(call) && len(findWait(h)) > 0 {
+						c.Bad("newSlotTicker emission after slot start", call.Pos(), "the helper that waits for the slot's start time can report success without the wait having fired")
+						return
+					}
+					c.Unsure("newSlotTicker emission after slot start", call.Pos(), "the slot is handed to a helper whose waiting behaviour could not be summarised")
+					return
+				}
+			}
+		}
+		c.Bad("newSlotTicker emission after slot start", sel.Pos(), "no wait clock.After(slot.Time.Sub(clock.Now())) for the ticker's slot found")
+		return
+	}
+	track := append(append([]ssa.Value{}, sentFacts...), waitFacts...)
+	// facts of the current iteration only: the walker forgets loop-body values on the back edge, so
+	// "the wait fired" at the emission means it fired in this iteration.
+	waited := func(f *an.H15Facts) bool { return c15AnyTrue(f, waitFacts) }
+	justSent := func(f *an.H15Facts) bool { return c15AnyTrue(f, sentFacts) }
+	c15CheckArrivals(c, "newSlotTicker emission after slot start", fn, sel, track, waited,
 		"the emission is not preceded by the wait clock.After(slot.Time.Sub(clock.Now())) for the emitted slot")
 	// assignments of the slot variable
 	var advances []*ssa.Store
@@ -808,12 +1497,18 @@ func c15Ticker(c *rt.Ctx) {
 	for _, st := range stores {
 		if next := c15Static(st.Val, "core.Slot.Next"); next != nil && c15IsLoadOf(next.Call.Args[0], cur) {
 			advances = append(advances, st)
-			c.Check("newSlotTicker advance after emission", posOf(st), afterSend(st.Block()),
+			c15CheckArrivals(c, "newSlotTicker advance after emission", fn, st, track, justSent,
 				"slot = slot.Next() is executed on a path that has not just emitted the slot (a slot is emitted for a time that was not waited for)")
 			continue
 		}
 		call, ok := c15Local(st.Val).(*ssa.Call)
-		if !ok || call.Call.IsInvoke() || call.Call.StaticCallee() != nil || an.TypeName(call.Type()) != "core.Slot" {
+		isSlotMethod := false
+		if ok && call.Call.StaticCallee() != nil {
+			if sig := call.Call.StaticCallee().Signature; sig.Recv() != nil && an.TypeName(sig.Recv().Type()) == "core.Slot" {
+				isSlotMethod = true // slot arithmetic (Next of something else, ...) is not "the current slot"
+			}
+		}
+		if !ok || call.Call.IsInvoke() || isSlotMethod || an.TypeName(call.Type()) != "core.Slot" {
 			c.Bad("newSlotTicker slot assignment", posOf(st), "the ticker's slot is assigned from something other than slot.Next() or the clock-derived current slot")
 			continue
 		}
@@ -821,7 +1516,23 @@ func c15Ticker(c *rt.Ctx) {
 			c.Good("newSlotTicker initial slot", posOf(st), "")
 			continue
 		}
-		ok = initCallee != nil && an.Equiv(call.Call.Value, initCallee) && W != nil && W.Dominates(st.Block()) && !afterSend(st.Block())
+		ok = initCallee != nil && an.Equiv(call.Call.Value, initCallee)
+		if ok && call.Call.StaticCallee() != nil {
+			// a named current-slot function: same function, same arguments as the initial call
+			for _, st0 := range stores {
+				if c0, isCall := c15Local(st0.Val).(*ssa.Call); isCall && !inLoop(st0.Block()) {
+					ok = an.Equiv(c0, call)
+				}
+			}
+		}
+		if ok {
+			all, decided := c15Arrivals(fn, st, track, nil, func(f *an.H15Facts) bool { return waited(f) && !justSent(f) })
+			if !decided {
+				c.Unsure("newSlotTicker resync", posOf(st), "too many paths to enumerate")
+				continue
+			}
+			ok = all
+		}
 		c.Check("newSlotTicker resync", posOf(st), ok,
 			"the slot is replaced inside the loop by something other than the clock-derived current slot read after the slot-start wait")
 	}
@@ -830,7 +1541,12 @@ func c15Ticker(c *rt.Ctx) {
 	for _, a := range advances {
 		avoid[a.Block()] = true
 	}
-	again := an.CanReach(S, sel.Block(), avoid)
+	again := false
+	for _, s := range sel.Block().Succs {
+		if an.CanReach(s, sel.Block(), avoid) {
+			again = true
+		}
+	}
 	c.Check("newSlotTicker emit→advance→emit", sel.Pos(), len(advances) > 0 && !again,
 		"after emitting a slot the loop can emit again without slot = slot.Next(): the same slot is ticked twice")
 }
@@ -838,79 +1554,172 @@ func c15Ticker(c *rt.Ctx) {
 // ---------------------------------------------------------------------------------------------
 // U2 not before the slot offset
 
-func c15U2(c *rt.Ctx) {
-	sched, trig := c15Trigger(c)
-	slotP := c15Param(c, sched, 2, "slot")
-	dutyP := c15Param(c, trig, 0, "duty")
-	delayN, waitN := c15P+".delaySlotOffset", c15P+".Scheduler.waitForEarlyFetchOrTimeout"
-	guards := an.Calls(trig, an.Static(delayN, waitN), false)
-	if len(guards) == 0 {
-		c.Note("U2: the trigger goroutine calls neither delaySlotOffset nor waitForEarlyFetchOrTimeout")
-	}
-	pass := map[c15Edge]bool{}
-	for _, g := range guards {
-		if _, bv := an.StatusOf(g, 0); bv != nil {
-			c15AddPass(pass, trig, bv, true)
+const (
+	c15DelayN = c15P + ".delaySlotOffset"
+	c15WaitN  = c15P + ".Scheduler.waitForEarlyFetchOrTimeout"
+)
+
+// c15GuardFns returns the functions whose true result means "the slot offset has been waited for":
+// the two anchors, and every single-result boolean helper of the package that returns a non-false
+// value only after (or as) the true result of such a function.
+func c15GuardFns(c *rt.Ctx, e *c15Env) map[*ssa.Function]bool {
+	set := map[*ssa.Function]bool{c.Fn(c15DelayN): true, c.Fn(c15WaitN): true}
+	for changed := true; changed; {
+		changed = false
+		for _, fn := range e.funcs {
+			if set[fn] || fn.Signature.Results().Len() != 1 {
+				continue
+			}
+			if b, ok := fn.Signature.Results().At(0).Type().Underlying().(*types.Basic); !ok || b.Kind() != types.Bool {
+				continue
+			}
+			guards := c15GuardCalls(fn, set)
+			if len(guards) == 0 {
+				continue
+			}
+			ok := true
+			for _, r := range an.Returns(fn) {
+				rv := returnValues(r)[0]
+				if k, isConst := c15ConstBool(rv); isConst && !k {
+					continue
+				}
+				all, decided := c15Arrivals(fn, r, guards, nil, func(f *an.H15Facts) bool {
+					g := f.Assume(rv, true)
+					return g == nil || c15AnyTrue(g, guards)
+				})
+				if !all || !decided {
+					ok = false
+				}
+			}
+			if ok {
+				set[fn] = true
+				changed = true
+			}
 		}
 	}
-	sinks := an.Calls(trig, an.FieldCall(c15Subs), false)
+	return set
+}
+
+// c15GuardCalls lists the (boolean) results of the calls in fn to functions of set.
+func c15GuardCalls(fn *ssa.Function, set map[*ssa.Function]bool) []ssa.Value {
+	var out []ssa.Value
+	for _, in := range an.Instrs(fn, false) {
+		if call, ok := in.(*ssa.Call); ok {
+			if callee := call.Call.StaticCallee(); callee != nil && set[an.Orig(callee)] {
+				out = append(out, call)
+			}
+		}
+	}
+	return out
+}
+
+func c15U2(c *rt.Ctx) {
+	e := c15NewEnv(c)
+	sched, trig := c15OneTrigger(c, e)
+	slotP := c15ParamT(c, sched, "core.Slot")
+	gset := c15GuardFns(c, e)
+	sinks := an.Calls(trig, e.subCall(), false)
+	var lit *ssa.Alloc
 	for _, s := range sinks {
-		c.Check(an.FuncName(trig)+" subscriber call after offset wait", s.Pos(), !c15ReachNoPass(trig, pass, s.Block()),
-			"a path reaches the duty subscribers without the slot-offset wait having returned true (duty triggered before its offset / after cancellation)")
-		c.Check(an.FuncName(trig)+" subscriber call duty", s.Pos(), c15Rooted(s.Common().Args[1], dutyP),
+		// the wait may sit in the trigger function or in a single-use helper between it and scheduleSlot
+		name := an.FuncName(trig) + " subscriber call after offset wait"
+		var target ssa.Instruction = s
+		fn := trig
+		good, undecided := false, false
+		for lvl := 0; lvl < 6 && !good; lvl++ {
+			guards := c15GuardCalls(fn, gset)
+			if len(guards) > 0 {
+				all, decided := c15Arrivals(fn, target, guards, nil, func(f *an.H15Facts) bool { return c15AnyTrue(f, guards) })
+				if !decided {
+					undecided = true
+				}
+				good = all && decided
+			}
+			if fn == sched {
+				break
+			}
+			site := e.site(fn)
+			if site == nil {
+				break
+			}
+			target, fn = site, site.Parent()
+		}
+		if !good && undecided {
+			c.Unsure(name, s.Pos(), "too many paths to enumerate")
+		} else {
+			c.Check(name, s.Pos(), good,
+				"a path reaches the duty subscribers without the slot-offset wait having returned true (duty triggered before its offset / after cancellation)")
+		}
+		cell := c15DutyCell(e, s)
+		if lit == nil {
+			lit = cell
+		}
+		c.Check(an.FuncName(trig)+" subscriber call duty", s.Pos(), cell != nil && cell == lit && cell.Parent() == sched,
 			"the duty handed to subscribers is not the duty the goroutine was started for")
 	}
 	att := constOf(c, "core", "DutyAttester")
-	for _, g := range guards {
-		args := g.Common().Args
-		if an.Static(delayN)(g.Common()) {
-			ok := c15Rooted(args[1], slotP) && c15Rooted(args[2], dutyP) && isLoadOfValueField(args[3], c15Sched+".delayFunc")
-			c.Check(an.FuncName(trig)+" delaySlotOffset arguments", g.Pos(), ok,
-				"delaySlotOffset is not applied to the ticked slot, the triggered duty and the scheduler's delay function")
-			continue
+	delayFn, waitFn := c.Fn(c15DelayN), c.Fn(c15WaitN)
+	nBase := 0
+	for _, fn := range e.ownedList(sched) {
+		for _, in := range an.Instrs(fn, false) {
+			g, ok := in.(*ssa.Call)
+			if !ok || g.Call.StaticCallee() == nil {
+				continue
+			}
+			switch an.Orig(g.Call.StaticCallee()) {
+			case delayFn:
+				nBase++
+				d := c15ArgT(&g.Call, "core.Duty")
+				ok := e.rooted(c15ArgT(&g.Call, "core.Slot"), slotP) && d != nil && lit != nil && e.cellOf(d) == lit &&
+					isLoadOfValueField(e.origin(c15ArgT(&g.Call, c15P+".delayFunc")), c15Sched+".delayFunc")
+				c.Check(an.FuncName(fn)+" delaySlotOffset arguments", g.Pos(), ok,
+					"delaySlotOffset is not applied to the ticked slot, the triggered duty and the scheduler's delay function")
+			case waitFn:
+				nBase++
+				ok := e.rooted(c15ArgT(&g.Call, "core.Slot"), slotP)
+				// only for attester duties (the fallback uses the attester offset): on every path to the call
+				// the comparison duty.Type == DutyAttester is known to hold
+				atoms := c15Atoms(e, fn, func(h *ssa.Function) []c15Atom {
+					var out []c15Atom
+					for _, in2 := range an.Instrs(h, false) {
+						bin, isBin := in2.(*ssa.BinOp)
+						if !isBin || (bin.Op != token.EQL && bin.Op != token.NEQ) {
+							continue
+						}
+						x, y := bin.X, bin.Y
+						if _, isC := an.Unwrap(x).(*ssa.Const); isC {
+							x, y = y, x
+						}
+						if n, isN := an.ConstInt(y); isN && n == att && lit != nil && e.fieldOfCell(x, "Type", lit) {
+							out = append(out, c15Atom{v: bin, want: bin.Op == token.EQL})
+						}
+					}
+					return out
+				}, 0)
+				only, decided := c15Arrivals(fn, g, c15AtomVals(atoms), nil, func(f *an.H15Facts) bool { return c15Holds(f, atoms) })
+				name := an.FuncName(fn) + " waitForEarlyFetchOrTimeout arguments"
+				if !decided {
+					c.Unsure(name, g.Pos(), "too many paths to enumerate")
+					continue
+				}
+				c.Check(name, g.Pos(), ok && only,
+					"waitForEarlyFetchOrTimeout (attester offset) is not restricted to attester duties of the ticked slot")
+			}
 		}
-		ok := c15Rooted(args[2], slotP)
-		// only for attester duties (the fallback uses the attester offset)
-		only := false
-		for _, b := range trig.Blocks {
-			iff, isIf := b.Instrs[len(b.Instrs)-1].(*ssa.If)
-			if !isIf {
-				continue
-			}
-			bin, isBin := iff.Cond.(*ssa.BinOp)
-			if !isBin || (bin.Op != token.EQL && bin.Op != token.NEQ) {
-				continue
-			}
-			x, y := bin.X, bin.Y
-			if _, isC := an.Unwrap(x).(*ssa.Const); isC {
-				x, y = y, x
-			}
-			n, isN := an.ConstInt(y)
-			if !isN || n != att || !c15FieldOf(x, "Type", dutyP) {
-				continue
-			}
-			eq := b.Succs[0]
-			if bin.Op == token.NEQ {
-				eq = b.Succs[1]
-			}
-			if eq.Dominates(g.Block()) {
-				only = true
-			}
-		}
-		c.Check(an.FuncName(trig)+" waitForEarlyFetchOrTimeout arguments", g.Pos(), ok && only,
-			"waitForEarlyFetchOrTimeout (attester offset) is not restricted to attester duties of the ticked slot")
 	}
-	c15Deadline(c, c.Fn(delayN), 1, 2, 3)
-	c15Deadline(c, c.Fn(waitN), 2, -1, -1)
+	if nBase == 0 {
+		c.Note("U2: neither delaySlotOffset nor waitForEarlyFetchOrTimeout is called under scheduleSlot")
+	}
+	c15Deadline(c, e, delayFn, true)
+	c15Deadline(c, e, waitFn, false)
 	// the offset table is only written by its initialiser
-	pkg := c.SSAPkg(c15P)
-	glob, _ := pkg.Members["slotOffsets"].(*ssa.Global)
+	glob, _ := e.pkg.Members["slotOffsets"].(*ssa.Global)
 	if glob == nil {
 		c.Bail("global slotOffsets not found")
 	}
 	written := false
 	var at token.Pos
-	for _, fn := range an.PkgFuncs(pkg) {
+	for _, fn := range e.funcs {
 		for _, in := range an.Instrs(fn, false) {
 			switch x := in.(type) {
 			case *ssa.Store:
@@ -918,7 +1727,7 @@ func c15U2(c *rt.Ctx) {
 					written, at = true, posOf(in)
 				}
 			case *ssa.MapUpdate:
-				if ld, ok := an.Unwrap(x.Map).(*ssa.UnOp); ok && ld.X == ssa.Value(glob) {
+				if ld, ok := c15Local(x.Map).(*ssa.UnOp); ok && ld.X == ssa.Value(glob) {
 					written, at = true, posOf(in)
 				}
 			}
@@ -928,65 +1737,57 @@ func c15U2(c *rt.Ctx) {
 }
 
 // c15Deadline checks that fn returns true only when there is no offset for the duty type or after the
-// channel armed with slot.Time.Add(slotOffsets[type](slot.SlotDuration)) fired.
-func c15Deadline(c *rt.Ctx, fn *ssa.Function, slotIdx, dutyIdx, delayIdx int) {
+// channel armed with slot.Time.Add(slotOffsets[type](slot.SlotDuration)) fired. byDuty: the table is
+// indexed by the type of fn's duty parameter (else by the attester constant). Pure single-use helpers
+// that compute the deadline (and report whether an offset exists) are followed.
+func c15Deadline(c *rt.Ctx, e *c15Env, fn *ssa.Function, byDuty bool) {
 	name := an.FuncName(fn)
-	slotP := c15Param(c, fn, slotIdx, "slot")
-	glob, _ := c.SSAPkg(c15P).Members["slotOffsets"].(*ssa.Global)
+	slotP := c15ParamT(c, fn, "core.Slot")
+	var dutyP *ssa.Parameter
+	if byDuty {
+		dutyP = c15ParamT(c, fn, "core.Duty")
+	}
+	glob, _ := e.pkg.Members["slotOffsets"].(*ssa.Global)
 	att := constOf(c, "core", "DutyAttester")
-	// the table lookup
-	var lookup *ssa.Lookup
-	for _, in := range an.Instrs(fn, false) {
-		lk, ok := in.(*ssa.Lookup)
-		if !ok || !lk.CommaOk {
-			continue
+	// the offset function: a lookup of slotOffsets by the duty's type (in fn or in a helper below it)
+	isOffsetFn := func(v ssa.Value) bool {
+		v = c15Local(v)
+		if ex, ok := v.(*ssa.Extract); ok && ex.Index == 0 {
+			v = ex.Tuple
 		}
-		if ld, ok := an.Unwrap(lk.X).(*ssa.UnOp); !ok || ld.X != ssa.Value(glob) {
-			continue
+		lk, ok := v.(*ssa.Lookup)
+		if !ok {
+			return false
 		}
-		keyOK := false
-		if dutyIdx >= 0 {
-			keyOK = c15FieldOf(lk.Index, "Type", c15Param(c, fn, dutyIdx, "duty"))
-		} else if n, ok := an.ConstInt(lk.Index); ok {
-			keyOK = n == att
+		if ld, ok := c15Local(lk.X).(*ssa.UnOp); !ok || ld.X != ssa.Value(glob) {
+			return false
 		}
-		if keyOK {
-			if lookup != nil {
-				c.Bail("%s: more than one slotOffsets lookup", name)
-			}
-			lookup = lk
+		if byDuty {
+			return e.fieldOf(lk.Index, "Type", dutyP)
 		}
-	}
-	if lookup == nil {
-		c.Bail("%s: no lookup of slotOffsets by the duty's type", name)
-	}
-	var offFn, okv ssa.Value
-	for _, ref := range *lookup.Referrers() {
-		if ex, ok := ref.(*ssa.Extract); ok {
-			if ex.Index == 0 {
-				offFn = ex
-			} else {
-				okv = ex
-			}
-		}
+		n, isN := an.ConstInt(lk.Index)
+		return isN && n == att
 	}
 	var isOffset func(v ssa.Value, d int) bool
 	isOffset = func(v ssa.Value, d int) bool {
 		if d > 4 {
 			return false
 		}
-		switch x := c15Local(v).(type) {
+		switch x := e.origin(v).(type) {
 		case *ssa.Call:
-			return offFn != nil && x.Call.Value == offFn && len(x.Call.Args) == 1 && c15FieldOf(x.Call.Args[0], "SlotDuration", slotP)
+			return x.Call.StaticCallee() == nil && !x.Call.IsInvoke() && isOffsetFn(x.Call.Value) && len(x.Call.Args) == 1 && e.fieldOf(x.Call.Args[0], "SlotDuration", slotP)
 		case *ssa.BinOp:
 			if x.Op == token.ADD {
 				if n, ok := an.ConstInt(x.Y); ok && n >= 0 {
 					return isOffset(x.X, d+1)
 				}
+				if n, ok := an.ConstInt(x.X); ok && n >= 0 {
+					return isOffset(x.Y, d+1)
+				}
 			}
 		case *ssa.Phi:
-			for _, e := range x.Edges {
-				if !isOffset(e, d+1) {
+			for _, ed := range x.Edges {
+				if !isOffset(ed, d+1) {
 					return false
 				}
 			}
@@ -994,74 +1795,226 @@ func c15Deadline(c *rt.Ctx, fn *ssa.Function, slotIdx, dutyIdx, delayIdx int) {
 		}
 		return false
 	}
-	isDeadline := func(v ssa.Value) bool {
-		add := c15Static(v, "time.Time.Add")
-		return add != nil && c15FieldOf(add.Call.Args[0], "Time", slotP) && isOffset(add.Call.Args[1], 0)
+	// noOffset collects the booleans whose falsity means "no offset is configured for the type"
+	var noOffset []ssa.Value
+	for _, in := range an.Instrs(fn, false) {
+		if lk, ok := in.(*ssa.Lookup); ok && lk.CommaOk && isOffsetFn(lk) {
+			for _, ref := range *lk.Referrers() {
+				if ex, ok := ref.(*ssa.Extract); ok && ex.Index == 1 {
+					noOffset = append(noOffset, ex)
+				}
+			}
+		}
 	}
-	armed := func(ch ssa.Value) bool {
+	// helperOK: every return of the single-use helper h yields (deadline, true) or (_, false on a lookup miss)
+	helperSeen := map[*ssa.Function]int{} // 1 good, 2 bad
+	var isDeadline func(v ssa.Value, d int) bool
+	helperOK := func(call *ssa.Call) bool {
+		h := an.Orig(call.Call.StaticCallee())
+		if h == nil || h.Pkg != e.pkg || e.site(h) != ssa.CallInstruction(call) {
+			return false
+		}
+		if st := helperSeen[h]; st != 0 {
+			return st == 1
+		}
+		helperSeen[h] = 2
+		res := h.Signature.Results()
+		if res.Len() < 1 || res.Len() > 2 || an.TypeName(res.At(0).Type()) != "time.Time" {
+			return false
+		}
+		var miss []ssa.Value
+		for _, in := range an.Instrs(h, false) {
+			if lk, ok := in.(*ssa.Lookup); ok && lk.CommaOk && isOffsetFn(lk) {
+				for _, ref := range *lk.Referrers() {
+					if ex, ok := ref.(*ssa.Extract); ok && ex.Index == 1 {
+						miss = append(miss, ex)
+					}
+				}
+			}
+		}
+		for _, r := range an.Returns(h) {
+			rv := returnValues(r)
+			if res.Len() == 2 {
+				k, isConst := c15ConstBool(rv[1])
+				if !isConst {
+					// `return deadline, ok` of the lookup itself
+					isMiss := false
+					for _, m := range miss {
+						if rv[1] == m {
+							isMiss = true
+						}
+					}
+					if !isMiss || !isDeadline(rv[0], 1) {
+						return false
+					}
+					continue
+				}
+				if !k {
+					all, decided := c15Arrivals(h, r, miss, nil, func(f *an.H15Facts) bool {
+						for _, m := range miss {
+							if kk, known := f.Known(m); known && !kk {
+								return true
+							}
+						}
+						return false
+					})
+					if !all || !decided {
+						return false
+					}
+					continue
+				}
+			}
+			if !isDeadline(rv[0], 1) {
+				return false
+			}
+		}
+		helperSeen[h] = 1
+		return true
+	}
+	isDeadline = func(v ssa.Value, d int) bool {
+		if d > 3 {
+			return false
+		}
+		v = e.origin(v)
+		if ex, ok := v.(*ssa.Extract); ok && ex.Index == 0 {
+			if call, ok := ex.Tuple.(*ssa.Call); ok && call.Call.StaticCallee() != nil {
+				return helperOK(call)
+			}
+			return false
+		}
+		call, ok := v.(*ssa.Call)
+		if !ok {
+			return false
+		}
+		if an.Static("time.Time.Add")(&call.Call) {
+			return e.fieldOf(call.Call.Args[0], "Time", slotP) && isOffset(call.Call.Args[1], 0)
+		}
+		if call.Call.StaticCallee() != nil && call.Call.Signature().Results().Len() == 1 {
+			return helperOK(call)
+		}
+		return false
+	}
+	// a two-result helper's second result is a "no offset" flag as well
+	for _, in := range an.Instrs(fn, false) {
+		call, ok := in.(*ssa.Call)
+		if !ok || call.Call.StaticCallee() == nil || call.Call.Signature().Results().Len() != 2 {
+			continue
+		}
+		if h := an.Orig(call.Call.StaticCallee()); h.Pkg != e.pkg || an.TypeName(call.Call.Signature().Results().At(0).Type()) != "time.Time" {
+			continue
+		}
+		if helperOK(call) {
+			for _, ref := range *call.Referrers() {
+				if ex, ok := ref.(*ssa.Extract); ok && ex.Index == 1 {
+					noOffset = append(noOffset, ex)
+				}
+			}
+		}
+	}
+	var armed func(ch ssa.Value) bool
+	armed = func(ch ssa.Value) bool {
 		call, ok := c15Local(ch).(*ssa.Call)
 		if !ok {
 			return false
 		}
+		if inner, ok := e.passThrough(call, 0); ok && call.Call.Signature().Results().Len() == 1 {
+			return armed(inner) // `timer := s.fallbackTimer(slot)` returning the armed channel
+		}
 		if an.Invoke("github.com/jonboulle/clockwork.Clock.After")(&call.Call) {
 			if until := c15Static(call.Call.Args[0], "time.Until"); until != nil {
-				return isDeadline(until.Call.Args[0])
+				return isDeadline(until.Call.Args[0], 0)
 			}
 			return false
 		}
 		if call.Call.IsInvoke() || call.Call.StaticCallee() != nil || len(call.Call.Args) != 2 {
 			return false
 		}
-		fv := an.Unwrap(call.Call.Value)
+		fv := c15Local(call.Call.Value)
 		isDelay := isLoadOfValueField(fv, c15Sched+".delayFunc")
-		if delayIdx >= 0 && fv == ssa.Value(fn.Params[delayIdx]) {
+		if p, isP := fv.(*ssa.Parameter); isP && p.Parent() == fn && an.TypeName(p.Type()) == c15P+".delayFunc" {
 			isDelay = true
 		}
-		return isDelay && isDeadline(call.Call.Args[1])
+		return isDelay && isDeadline(call.Call.Args[1], 0)
 	}
-	var fired []*ssa.BasicBlock
+	var fired []ssa.Value
+	unknownTimer := false
 	for _, in := range an.Instrs(fn, false) {
 		sel, ok := in.(*ssa.Select)
 		if !ok {
 			continue
 		}
 		for i, st := range sel.States {
-			if st.Dir == types.RecvOnly && armed(st.Chan) {
-				if b := c15SelectCase(sel, i); b != nil {
-					fired = append(fired, b)
+			if st.Dir != types.RecvOnly {
+				continue
+			}
+			if armed(st.Chan) {
+				fired = append(fired, c15SelectFired(sel, i)...)
+				continue
+			}
+			// a channel of unknown provenance (e.g. a timer built by a helper): neither armed nor obviously wrong
+			switch x := e.origin(st.Chan).(type) {
+			case *ssa.Call:
+				if x.Call.IsInvoke() && x.Call.Method.Name() == "Done" {
+					continue // ctx.Done()
 				}
+				if x.Call.StaticCallee() != nil && an.Orig(x.Call.StaticCallee()).Pkg == e.pkg {
+					// a helper that merely returns clock.After(...) / delayFunc(...) is a recognised timer (with
+					// the wrong deadline, or armed() would have accepted it); anything else is unknown
+					known := false
+					if inner, ok := e.passThrough(x, 0); ok {
+						if ic, ok := c15Local(inner).(*ssa.Call); ok && (an.Invoke("github.com/jonboulle/clockwork.Clock.After")(&ic.Call) || an.TypeName(ic.Call.Value.Type()) == c15P+".delayFunc") {
+							known = true
+						}
+					}
+					if !known {
+						unknownTimer = true
+					}
+				}
+			case *ssa.Parameter, *ssa.FreeVar, *ssa.Phi:
+				unknownTimer = true
 			}
 		}
 	}
-	var noOffset *ssa.BasicBlock
-	if okv != nil {
-		for _, b := range c15BoolEdges(fn, okv, false) {
-			noOffset = b
-		}
-	}
+	track := append(append([]ssa.Value{}, fired...), noOffset...)
 	n := 0
 	for _, r := range an.Returns(fn) {
-		if len(r.Results) != 1 {
+		rvs := returnValues(r)
+		if len(rvs) != 1 {
 			c.Bail("%s: unexpected result arity", name)
 		}
-		v, isConst := c15ConstBool(r.Results[0])
-		if isConst && !v {
+		rv := rvs[0]
+		if v, isConst := c15ConstBool(rv); isConst && !v {
 			continue
 		}
 		n++
 		cname := fmt.Sprintf("%s return true#%d", name, n)
-		if !isConst {
-			c.Unsure(cname, posOf(r), "non-constant result; cannot tell when the wait reports success")
-			continue
-		}
-		ok := noOffset != nil && noOffset.Dominates(r.Block())
-		for _, b := range fired {
-			if b.Dominates(r.Block()) {
-				ok = true
+		unknownResult := false
+		all, decided := c15Arrivals(fn, r, track, nil, func(f *an.H15Facts) bool {
+			if k, known := f.Known(rv); known {
+				if !k {
+					return true
+				}
+			} else {
+				unknownResult = true
 			}
+			for _, m := range noOffset {
+				if k, known := f.Known(m); known && !k {
+					return true
+				}
+			}
+			return c15AnyTrue(f, fired)
+		})
+		switch {
+		case !decided:
+			c.Unsure(cname, posOf(r), "too many paths to enumerate")
+		case !all && unknownResult:
+			c.Unsure(cname, posOf(r), "non-constant result; cannot tell when the wait reports success")
+		case !all && unknownTimer:
+			c.Unsure(cname, posOf(r), "the wait selects on a channel whose deadline could not be traced")
+		default:
+			c.Check(cname, posOf(r), all,
+				"the wait reports success on a path where neither the duty type has no offset nor the timer armed with slot.Time.Add(slotOffsets[type](slot.SlotDuration)) fired")
 		}
-		c.Check(cname, posOf(r), ok,
-			"the wait reports success on a path where neither the duty type has no offset nor the timer armed with slot.Time.Add(slotOffsets[type](slot.SlotDuration)) fired")
 	}
 	if n == 0 {
 		c.Bail("%s never returns true", name)
@@ -1078,169 +2031,389 @@ var c15DefFor = map[string]string{
 	"core.NewSyncContributionDuty": "core.NewSyncCommitteeDefinition",
 }
 
-func c15U3(c *rt.Ctx) {
-	setN := c15P + ".Scheduler.setDutyDefinition"
-	resolvers := []string{"resolveAttDuties", "resolveProDuties", "resolveSyncCommDuties"}
-	// no other function stores definitions (anchors are resolved first: a rename is UNDECIDED, not a violation)
-	isResolver := map[*ssa.Function]bool{}
-	for _, rn := range resolvers {
-		isResolver[c.Fn(c15P+".Scheduler."+rn)] = true
-	}
-	for _, fn := range an.PkgFuncs(c.SSAPkg(c15P)) {
-		if isResolver[fn] {
+// c15ResolverFns discovers the resolve functions: the functions of the package that store duty
+// definitions (call setDutyDefinition). They are found by what they do, not by their names; U3 then
+// requires each of them to be run by resolveDuties with the checked validator list, and the four
+// kinds of duty to be covered.
+func c15ResolverFns(c *rt.Ctx, e *c15Env) []*ssa.Function {
+	setFn := c.Fn(c15P + ".Scheduler.setDutyDefinition")
+	var out []*ssa.Function
+	for _, fn := range e.funcs {
+		if fn.Parent() != nil {
 			continue
 		}
-		for _, call := range an.Calls(fn, an.Static(setN), false) {
-			c.Bad(an.FuncName(fn)+" setDutyDefinition", call.Pos(), "duty definitions are stored outside the three resolve functions (no validator / public-key / slot checks apply)")
+		for _, s := range e.calls[setFn] {
+			if s.Parent() == fn {
+				out = append(out, fn)
+				break
+			}
 		}
 	}
-	for _, rn := range resolvers {
-		fn := c.Fn(c15P + ".Scheduler." + rn)
-		slotP := c15Param(c, fn, 2, "slot")
-		valsP := c15Param(c, fn, 3, "vals")
-		sinks := c.SomeCalls(fn, an.Static(setN), "setDutyDefinition", false)
-		for _, sink := range sinks {
-			args := sink.Common().Args
-			if len(args) != 5 {
-				c.Bail("setDutyDefinition: unexpected signature")
+	if len(out) == 0 {
+		c.Bail("no function calls setDutyDefinition")
+	}
+	return out
+}
+
+func c15ShortName(fn *ssa.Function) string {
+	n := an.FuncName(fn)
+	return n[strings.LastIndex(n, ".")+1:]
+}
+
+// c15ResolverCall is one call of resolveDuties that runs resolvers: a static call of one resolver, or
+// a dynamic call inside a loop over a local array / slice literal of the resolvers' method values
+// (then it stands for every element, in order).
+type c15ResolverCall struct {
+	call  ssa.CallInstruction
+	names []string
+	loop  *an.Loop // nil for a static call
+}
+
+func c15ResolverCalls(c *rt.Ctx, e *c15Env, rd *ssa.Function, resolvers []*ssa.Function) []c15ResolverCall {
+	var out []c15ResolverCall
+	for _, fn := range e.ownedList(rd) {
+		skip := false
+		for _, r := range resolvers {
+			if fn == r || e.owned(r)[fn] {
+				skip = true // the resolvers themselves (and what they own) are not "callers of resolvers"
 			}
-			dutyCall, _ := c15Local(args[1]).(*ssa.Call)
-			ctor := ""
-			if dutyCall != nil && dutyCall.Call.StaticCallee() != nil {
-				ctor = an.FuncName(dutyCall.Call.StaticCallee())
+		}
+		if !skip {
+			out = append(out, c15ResolverCallsIn(c, fn, resolvers)...)
+		}
+	}
+	return out
+}
+
+func c15ResolverCallsIn(c *rt.Ctx, rd *ssa.Function, resolvers []*ssa.Function) []c15ResolverCall {
+	isRes := map[*ssa.Function]string{}
+	for _, fn := range resolvers {
+		isRes[fn] = c15ShortName(fn)
+	}
+	var out []c15ResolverCall
+	for _, in := range an.Instrs(rd, false) {
+		ci, ok := in.(ssa.CallInstruction)
+		if !ok || ci.Common().IsInvoke() {
+			continue
+		}
+		if f := ci.Common().StaticCallee(); f != nil {
+			if rn, ok := isRes[an.Orig(f)]; ok {
+				out = append(out, c15ResolverCall{call: ci, names: []string{rn}})
 			}
-			name := fmt.Sprintf("%s setDutyDefinition(%s)", rn, strings.TrimPrefix(ctor, "core."))
-			wantDef, known := c15DefFor[ctor]
-			if !known {
-				c.Unsure(name, sink.Pos(), "duty is not built by a known core.New*Duty constructor")
-				continue
+			continue
+		}
+		// element of a local array of method values, indexed by the loop variable
+		var arr, index ssa.Value
+		switch x := c15Local(ci.Common().Value).(type) {
+		case *ssa.Index:
+			arr, index = x.X, x.Index
+		case *ssa.UnOp:
+			if ia, ok := x.X.(*ssa.IndexAddr); ok && x.Op == token.MUL {
+				arr, index = ia.X, ia.Index
 			}
-			// definition built from beacon duty D, an element of a loop around the sink
-			def := c15Static(args[4], wantDef)
-			var D ssa.Value
-			var loop *an.Loop
-			if def != nil {
-				D = an.Unwrap(def.Call.Args[0])
-				for _, l := range an.LoopsContaining(fn, sink.Block()) {
-					if c15ElemOf(l, D) {
-						loop = l
-						break
+		}
+		if arr == nil {
+			continue
+		}
+		var lit *ssa.Alloc
+		switch a := an.Unwrap(arr).(type) {
+		case *ssa.UnOp:
+			lit, _ = a.X.(*ssa.Alloc)
+		case *ssa.Alloc:
+			lit = a
+		case *ssa.Slice:
+			lit, _ = a.X.(*ssa.Alloc)
+		}
+		if lit == nil {
+			continue
+		}
+		at, isArr := lit.Type().Underlying().(*types.Pointer).Elem().Underlying().(*types.Array)
+		if !isArr {
+			continue
+		}
+		var names []string
+		clean := true
+		for _, ref := range *lit.Referrers() {
+			switch r := ref.(type) {
+			case *ssa.IndexAddr:
+				if _, isConst := an.ConstInt(r.Index); !isConst {
+					if r != nil && !(r.Index == index) {
+						clean = false
+					}
+					continue
+				}
+				for _, r2 := range *r.Referrers() {
+					st, ok := r2.(*ssa.Store)
+					if !ok {
+						continue
+					}
+					mc, ok := st.Val.(*ssa.MakeClosure)
+					if !ok {
+						clean = false
+						continue
+					}
+					w, _ := mc.Fn.(*ssa.Function)
+					var m *ssa.Function
+					if w != nil {
+						if obj, ok := w.Object().(*types.Func); ok {
+							m = c.P.SSA.FuncValue(obj)
+						}
+					}
+					if rn, ok := isRes[an.Orig(m)]; ok && w.Synthetic != "" {
+						names = append(names, rn)
+					} else {
+						clean = false
+					}
+				}
+			case *ssa.UnOp, *ssa.Slice, *ssa.DebugRef:
+			default:
+				clean = false
+			}
+		}
+		l := an.InnermostLoop(rd, ci.Block())
+		if !clean || len(names) == 0 || int64(len(names)) != at.Len() || l == nil {
+			continue
+		}
+		// the loop visits every index: header `i < len` with the element indexed by the loop variable
+		full := false
+		for _, hin := range l.Header.Instrs {
+			if iff, ok := hin.(*ssa.If); ok {
+				if bin, ok := iff.Cond.(*ssa.BinOp); ok && bin.Op == token.LSS && bin.X == index {
+					if n, ok := an.ConstInt(bin.Y); ok && n == at.Len() {
+						full = true
+					}
+					if call, ok := bin.Y.(*ssa.Call); ok {
+						if b, ok := call.Call.Value.(*ssa.Builtin); ok && b.Name() == "len" && an.Unwrap(call.Call.Args[0]) == an.Unwrap(arr) {
+							full = true
+						}
 					}
 				}
 			}
-			if !c.Check(name+" definition", sink.Pos(), def != nil && loop != nil,
-				"the definition stored is not "+wantDef+"(d) of the beacon duty d being iterated") {
-				continue
-			}
-			// duty slot
-			if ctor == "core.NewSyncContributionDuty" {
-				ok, why := c15SyncSlots(fn, sink, dutyCall.Call.Args[0], slotP)
-				c.Check(name+" slot range", sink.Pos(), ok, why)
-			} else {
-				c.Check(name+" duty slot", sink.Pos(), c15FieldOfVal(dutyCall.Call.Args[0], "Slot", D),
-					"the duty is not scheduled at the slot of the beacon duty it is defined by")
-				ok, why := c15SlotSkip(fn, sink, D, slotP)
-				c.Check(name+" slot skip", sink.Pos(), ok, why)
-			}
-			// epoch bookkeeping
-			ep := c15Static(args[2], "core.Slot.Epoch")
-			c.Check(name+" epoch", sink.Pos(), ep != nil && c15Rooted(ep.Call.Args[0], slotP),
-				"the definition is not filed under the epoch being resolved (it would not be trimmed with it)")
-			// public key: looked up by D's validator index in vals, ok checked
-			var idx ssa.CallInstruction
-			for _, k := range an.Calls(fn, an.Static(c15P+".validators.PubKeyFromIndex"), false) {
-				a := k.Common().Args
-				if c15Rooted(a[0], valsP) && c15FieldOfVal(a[1], "ValidatorIndex", D) && an.Dominates(k, sink) {
-					idx = k
-				}
-			}
-			if idx == nil {
-				c.Bad(name+" validator lookup", sink.Pos(), "no vals.PubKeyFromIndex(d.ValidatorIndex) for the beacon duty precedes the store: duties of validators outside the active cluster set are stored")
-				continue
-			}
-			g, why := c15BoolGuarded(idx, sink, 1, true)
-			c.Check(name+" validator lookup", sink.Pos(), g, "vals.PubKeyFromIndex(d.ValidatorIndex): "+why)
-			var K ssa.Value
-			for _, ref := range *idx.Value().Referrers() {
-				if ex, ok := ref.(*ssa.Extract); ok && ex.Index == 0 {
-					K = ex
-				}
-			}
-			// equality of the looked-up key and the beacon duty's key
-			eqOK, eqWhy := false, "no comparison of the looked-up public key with the beacon duty's own public key guards the store"
-			var other ssa.Value
-			for _, b := range fn.Blocks {
-				iff, isIf := b.Instrs[len(b.Instrs)-1].(*ssa.If)
-				if !isIf {
-					continue
-				}
-				bin, isBin := iff.Cond.(*ssa.BinOp)
-				if !isBin || (bin.Op != token.EQL && bin.Op != token.NEQ) || K == nil {
-					continue
-				}
-				x, y := bin.X, bin.Y
-				if c15Local(y) == K {
-					x, y = y, x
-				}
-				if c15Local(x) != K {
-					continue
-				}
-				from := c15Static(y, "core.PubKeyFrom48Bytes")
-				if from == nil || !c15FieldOfVal(from.Call.Args[0], "PubKey", D) {
-					continue
-				}
-				eq, ne := b.Succs[0], b.Succs[1]
-				if bin.Op == token.NEQ {
-					eq, ne = ne, eq
-				}
-				if !eq.Dominates(sink.Block()) {
-					eqWhy = "the equal edge of the public-key comparison does not dominate the store"
-					continue
-				}
-				if !an.EdgeCuts(ne, sink, map[*ssa.BasicBlock]bool{b: true}) {
-					eqWhy = "after a public-key mismatch control still reaches the store"
-					continue
-				}
-				eqOK, other = true, from
-			}
-			c.Check(name+" public key equality", sink.Pos(), eqOK, eqWhy)
-			pk := c15Local(args[3])
-			c.Check(name+" public key argument", sink.Pos(), K != nil && (pk == K || (other != nil && pk == other)),
-				"the public key the definition is stored under is not the checked key of this beacon duty")
+		}
+		if full {
+			out = append(out, c15ResolverCall{call: ci, names: names, loop: l})
 		}
 	}
-	// vals handed to the resolvers is the checked result of resolveActiveValidators
-	rd := c.Fn(c15P + ".Scheduler.resolveDuties")
-	rav := c.OneCall(rd, an.Static(c15P+".resolveActiveValidators"), "resolveActiveValidators", false)
-	for _, rn := range resolvers {
-		call := c.OneCall(rd, an.Static(c15P+".Scheduler."+rn), rn, false)
-		v := call.Common().Args[3]
-		ex, ok := c15Local(v).(*ssa.Extract)
-		good := ok && ex.Index == 0 && ex.Tuple == rav.Value()
-		if good {
-			good, _ = an.Guarded(rav, call, an.DefaultGuard)
-		}
-		c.Check("resolveDuties→"+rn+" validators", call.Pos(), good, "the validator list is not the checked result of resolveActiveValidators")
-	}
-	c15ActiveFilter(c)
+	return out
 }
 
-// c15SlotSkip: a comparison of d.Slot with slot.Slot whose "earlier" edge cannot reach the sink.
-func c15SlotSkip(fn *ssa.Function, sink ssa.Instruction, D, slotP ssa.Value) (bool, string) {
-	why := "no test `d.Slot < slot.Slot` that skips the beacon duty guards the store: duties of slots before the resolving slot are stored"
-	for _, b := range fn.Blocks {
-		iff, isIf := b.Instrs[len(b.Instrs)-1].(*ssa.If)
-		if !isIf {
+// c15Forward resolves a load of a multiply-assigned local (a named result, a reused `err`) to the value
+// stored last before it on the straight-line code leading to the load.
+func c15Forward(v ssa.Value) ssa.Value {
+	ld, ok := an.Unwrap(v).(*ssa.UnOp)
+	if !ok || ld.Op != token.MUL {
+		return v
+	}
+	al, ok := ld.X.(*ssa.Alloc)
+	if !ok {
+		return v
+	}
+	b := ld.Block()
+	idx := len(b.Instrs)
+	for i, in := range b.Instrs {
+		if in == ssa.Instruction(ld) {
+			idx = i
+		}
+	}
+	for hops := 0; hops < 8; hops++ {
+		for i := idx - 1; i >= 0; i-- {
+			if st, ok := b.Instrs[i].(*ssa.Store); ok && st.Addr == ssa.Value(al) {
+				return st.Val
+			}
+		}
+		if len(b.Preds) != 1 {
+			return v
+		}
+		b = b.Preds[0]
+		idx = len(b.Instrs)
+	}
+	return v
+}
+
+// c15NilAtoms lists the comparisons of ev with nil in fn; an atom holds when it says "ev == nil".
+func c15NilAtoms(fn *ssa.Function, ev ssa.Value) []c15Atom {
+	is := func(x ssa.Value) bool {
+		return x == ev || an.Unwrap(x) == ev || c15Forward(x) == ev || c15Local(x) == ev
+	}
+	var out []c15Atom
+	for _, in := range an.Instrs(fn, false) {
+		bin, ok := in.(*ssa.BinOp)
+		if !ok || (bin.Op != token.EQL && bin.Op != token.NEQ) {
 			continue
 		}
-		bin, isBin := iff.Cond.(*ssa.BinOp)
-		if !isBin {
-			continue
+		if (is(bin.X) && an.IsNilConst(bin.Y)) || (is(bin.Y) && an.IsNilConst(bin.X)) {
+			out = append(out, c15Atom{v: bin, want: bin.Op == token.EQL})
 		}
-		op := bin.Op
-		x, y := bin.X, bin.Y
-		if c15FieldOfVal(y, "Slot", D) {
-			x, y = y, x
+	}
+	return out
+}
+
+// c15NilKnown: what the path knows about the value the atoms compare with nil.
+func c15NilKnown(f *an.H15Facts, atoms []c15Atom) (isNil bool, known bool) {
+	for _, a := range atoms {
+		if k, ok := f.Known(a.v); ok {
+			return k == a.want, true
+		}
+	}
+	return false, false
+}
+
+// c15ErrNilAt: on every feasible arrival at sink, the error result of call g is known to be nil.
+// For a call standing for a whole loop (c15ResolverCall.loop) the for-all-loop guard is used.
+func c15ErrNilAt(fn *ssa.Function, g ssa.CallInstruction, loop *an.Loop, sink ssa.Instruction) (ok bool, decided bool, why string) {
+	errs, _ := an.StatusOf(g, -1)
+	if len(errs) != 1 {
+		return false, true, "the error result is discarded"
+	}
+	ev := errs[0]
+	atoms := c15NilAtoms(fn, ev)
+	if len(atoms) == 0 {
+		return false, true, "the error result is never compared with nil"
+	}
+	if loop != nil {
+		for _, cd := range an.CondsOn(fn, ev) {
+			if cd.Other == nil || !an.IsNilConst(cd.Other) || (cd.Op != token.EQL && cd.Op != token.NEQ) {
+				continue
+			}
+			fail := cd.Succ(cd.Op == token.NEQ) // the edge on which err != nil
+			if g, w := an.ForallGuard(loop, cd.If, fail, sink); g {
+				return true, true, ""
+			} else {
+				why = w
+			}
+		}
+		return false, true, why
+	}
+	all, dec := c15Arrivals(fn, sink, c15AtomVals(atoms), nil, func(f *an.H15Facts) bool { return c15Holds(f, atoms) })
+	return all, dec, "the call's error is not known to be nil on every path"
+}
+
+// c15TopSite follows call up through single-use helpers to the call in top that (transitively) runs it.
+func c15TopSite(e *c15Env, call ssa.CallInstruction, top *ssa.Function) ssa.CallInstruction {
+	for i := 0; i < 4 && call != nil && call.Parent() != top; i++ {
+		call = e.site(call.Parent())
+	}
+	if call == nil || call.Parent() != top {
+		return nil
+	}
+	return call
+}
+
+// c15NilReturnImplies: helper h returns a nil error only when call (inside h) returned a nil error
+// (for a call standing for a loop: for every element). unsure is set when a returned value cannot be classified.
+func c15NilReturnImplies(h *ssa.Function, call ssa.CallInstruction, loop *an.Loop, excuse func(h *ssa.Function) ([]ssa.Value, func(f *an.H15Facts) bool)) (ok bool, unsure bool) {
+	res := h.Signature.Results()
+	if res.Len() != 1 || !an.IsErrorType(res.At(0).Type()) {
+		return false, true
+	}
+	errs, _ := an.StatusOf(call, -1)
+	if len(errs) != 1 {
+		return false, false
+	}
+	ev := errs[0]
+	var track []ssa.Value
+	for _, in := range an.Instrs(h, false) {
+		if bin, isBin := in.(*ssa.BinOp); isBin && (bin.Op == token.EQL || bin.Op == token.NEQ) &&
+			((an.IsNilConst(bin.X) && an.IsErrorType(bin.Y.Type())) || (an.IsNilConst(bin.Y) && an.IsErrorType(bin.X.Type()))) {
+			track = append(track, bin)
+		}
+	}
+	isErrPhi := func(p *ssa.Phi) bool { return an.IsErrorType(p.Type()) }
+	evAtoms := c15NilAtoms(h, ev)
+	var excused func(f *an.H15Facts) bool
+	if excuse != nil {
+		var more []ssa.Value
+		more, excused = excuse(h)
+		track = append(track, more...)
+	}
+	ok = true
+	for _, r := range an.Returns(h) {
+		rv := returnValues(r)[0]
+		loopDone := false
+		if loop != nil {
+			loopDone, _, _ = c15ErrNilAt(h, call, loop, r)
+		}
+		all, decided := c15Arrivals(h, r, track, isErrPhi, func(f *an.H15Facts) bool {
+			rr := f.Resolve(rv)
+			if rr == ev {
+				return true // returns the call's own error
+			}
+			if excused != nil && excused(f) {
+				return true
+			}
+			if loop != nil {
+				if loopDone {
+					return true
+				}
+			} else if c15Holds(f, evAtoms) {
+				return true
+			}
+			if an.IsNilConst(rr) {
+				return false // nil although the call is not known to have succeeded
+			}
+			if isNil, known := c15NilKnown(f, c15NilAtoms(h, rr)); known && !isNil {
+				return true
+			}
+			switch x := rr.(type) {
+			case *ssa.MakeInterface:
+				return true // a freshly built error value
+			case *ssa.Call:
+				if callee := x.Call.StaticCallee(); callee != nil && callee.Pkg != nil &&
+					(strings.HasSuffix(callee.Pkg.Pkg.Path(), "errors") || an.FuncName(callee) == "fmt.Errorf") {
+					return true // an error constructor
+				}
+				return false // the result of some other call: it may well be nil
+			case *ssa.Extract:
+				if _, isCall := x.Tuple.(*ssa.Call); isCall {
+					return false
+				}
+			}
+			unsure = true
+			return false
+		})
+		if !decided {
+			unsure = true
+		}
+		if !all || !decided {
+			ok = false
+		}
+	}
+	return ok, unsure
+}
+
+// c15SuccessSite returns the call in top whose nil error implies that the resolver call rc returned
+// nil: rc.call itself, or the call of the single-use helper (chain) around it. why explains a failure;
+// unsure tells that the helper could not be summarised.
+func c15SuccessSite(e *c15Env, top *ssa.Function, rc c15ResolverCall, excuse func(h *ssa.Function) ([]ssa.Value, func(f *an.H15Facts) bool)) (site ssa.CallInstruction, loop *an.Loop, unsure bool, why string) {
+	call, l := rc.call, rc.loop
+	for i := 0; i < 4 && call.Parent() != top; i++ {
+		h := call.Parent()
+		s := e.site(h)
+		if s == nil {
+			return nil, nil, true, "the call sits in a helper that is not single-use"
+		}
+		ok, uns := c15NilReturnImplies(h, call, l, excuse)
+		if !ok {
+			return nil, nil, uns, an.FuncName(h) + " can return nil although " + strings.Join(rc.names, "/") + " failed or did not run"
+		}
+		call, l = s, nil
+	}
+	if call.Parent() != top {
+		return nil, nil, true, "helper chain too deep"
+	}
+	return call, l, false, ""
+}
+
+// c15LenZero interprets the fact `bin == truth` for a comparison of len(x) with a constant: does it imply len(x) == 0?
+func c15LenZero(bin *ssa.BinOp, isLen func(ssa.Value) bool, truth bool) bool {
+	op, k := bin.Op, int64(-1)
+	if isLen(bin.X) {
+		if n, ok := an.ConstInt(bin.Y); ok {
+			k = n
+		}
+	} else if isLen(bin.Y) {
+		if n, ok := an.ConstInt(bin.X); ok {
+			k = n
 			switch op {
 			case token.LSS:
 				op = token.GTR
@@ -1252,63 +2425,372 @@ func c15SlotSkip(fn *ssa.Function, sink ssa.Instruction, D, slotP ssa.Value) (bo
 				op = token.LEQ
 			}
 		}
-		if !c15FieldOfVal(x, "Slot", D) || !c15FieldOf(y, "Slot", slotP) {
-			continue
-		}
-		var pass, fail *ssa.BasicBlock
-		switch op {
-		case token.LSS, token.LEQ: // d.Slot < slot.Slot → skip
-			fail, pass = b.Succs[0], b.Succs[1]
-		case token.GEQ, token.GTR:
-			pass, fail = b.Succs[0], b.Succs[1]
-		default:
-			continue
-		}
-		if !pass.Dominates(sink.Block()) {
-			why = "the not-earlier edge of the slot comparison does not dominate the store"
-			continue
-		}
-		if !an.EdgeCuts(fail, sink, map[*ssa.BasicBlock]bool{b: true}) {
-			why = "a beacon duty for an earlier slot still reaches the store"
-			continue
-		}
-		return true, ""
 	}
-	return false, why
+	if k < 0 {
+		return false
+	}
+	if !truth {
+		switch op {
+		case token.EQL:
+			op = token.NEQ
+		case token.NEQ:
+			op = token.EQL
+		case token.LSS:
+			op = token.GEQ
+		case token.GEQ:
+			op = token.LSS
+		case token.GTR:
+			op = token.LEQ
+		case token.LEQ:
+			op = token.GTR
+		}
+	}
+	switch op {
+	case token.EQL, token.LEQ:
+		return k == 0
+	case token.LSS:
+		return k == 1
+	}
+	return false
+}
+
+func c15U3(c *rt.Ctx) {
+	e := c15NewEnv(c)
+	setFn := c.Fn(c15P + ".Scheduler.setDutyDefinition")
+	setN := c15P + ".Scheduler.setDutyDefinition"
+	// definitions are stored only by the resolve functions that resolveDuties runs (discovered by what
+	// they do); a store anywhere else bypasses the validator / public-key / slot checks
+	rd := c.Fn(c15P + ".Scheduler.resolveDuties")
+	resolvers := c15ResolverFns(c, e)
+	rcs := c15ResolverCalls(c, e, rd, resolvers)
+	runBy := map[string]bool{}
+	for _, rc := range rcs {
+		for _, rn := range rc.names {
+			runBy[rn] = true
+		}
+	}
+	if e.leaks[setFn] {
+		c.Unsure("setDutyDefinition callers", setFn.Pos(), "setDutyDefinition is used as a value; its callers cannot be enumerated")
+	}
+	for _, s := range e.calls[setFn] {
+		if s.Parent().Parent() != nil {
+			c.Unsure(an.FuncName(s.Parent())+" setDutyDefinition", s.Pos(), "the store sits in a function literal; the per-duty checks cannot be followed there")
+		}
+	}
+	var checked []*ssa.Function
+	for _, fn := range resolvers {
+		rn := c15ShortName(fn)
+		if !runBy[rn] {
+			for _, call := range an.Calls(fn, an.Static(setN), false) {
+				if own := e.owned(rd); own[fn] {
+					c.Unsure(an.FuncName(fn)+" setDutyDefinition", call.Pos(), "the store was moved into a helper below resolveDuties that is not called with the validator list directly; the per-duty checks cannot be followed there")
+					continue
+				}
+				c.Bad(an.FuncName(fn)+" setDutyDefinition", call.Pos(), "duty definitions are stored outside the resolve functions run by resolveDuties (no validator / public-key / slot checks apply)")
+			}
+			continue
+		}
+		checked = append(checked, fn)
+	}
+	kinds := map[string]bool{}
+	for _, fn := range checked {
+		rn := c15ShortName(fn)
+		slotP := c15ParamT(c, fn, "core.Slot")
+		valsP := c15ParamT(c, fn, c15P+".validators")
+		sinks := c.SomeCalls(fn, an.Static(setN), "setDutyDefinition", false)
+		for _, sink := range sinks {
+			cc := sink.Common()
+			dutyArg, epochArg, pkArg, defArg := c15ArgT(cc, "core.Duty"), c15ArgT(cc, "uint64"), c15ArgT(cc, "core.PubKey"), c15ArgT(cc, "core.DutyDefinition")
+			if dutyArg == nil || epochArg == nil || pkArg == nil || defArg == nil {
+				c.Bail("setDutyDefinition: unexpected signature")
+			}
+			dutyCall, _ := c15Local(dutyArg).(*ssa.Call)
+			ctor := ""
+			if dutyCall != nil && dutyCall.Call.StaticCallee() != nil {
+				ctor = an.FuncName(dutyCall.Call.StaticCallee())
+			}
+			name := fmt.Sprintf("%s setDutyDefinition(%s)", rn, strings.TrimPrefix(ctor, "core."))
+			wantDef, known := c15DefFor[ctor]
+			if !known {
+				c.Unsure(name, sink.Pos(), "duty is not built by a known core.New*Duty constructor")
+				continue
+			}
+			kinds[ctor] = true
+			// definition built from beacon duty D, an element of a loop around the sink
+			def := c15Static(defArg, wantDef)
+			var D ssa.Value
+			var loop *an.Loop
+			if def != nil {
+				D = c15Local(def.Call.Args[0])
+				for _, l := range an.LoopsContaining(fn, sink.Block()) {
+					if c15ElemOf(l, D) {
+						loop = l
+						break
+					}
+				}
+			}
+			if def == nil {
+				anyCtor := false
+				if dc, ok := c15Local(defArg).(*ssa.Call); ok && dc.Call.StaticCallee() != nil {
+					for _, w := range c15DefFor {
+						if an.FuncName(dc.Call.StaticCallee()) == w {
+							anyCtor = true
+						}
+					}
+				}
+				if !anyCtor {
+					c.Unsure(name+" definition", sink.Pos(), "the definition stored is not built by a core.New*Definition constructor in this function")
+					continue
+				}
+			}
+			if !c.Check(name+" definition", sink.Pos(), def != nil && loop != nil,
+				"the definition stored is not "+wantDef+"(d) of the beacon duty d being iterated") {
+				continue
+			}
+			ofD := func(v ssa.Value, field string) bool {
+				b, n, ok := c15FieldRead(e.origin(v))
+				if !ok || n != field {
+					return false
+				}
+				b = e.origin(b)
+				return b == D || an.Equiv(b, D)
+			}
+			// duty slot
+			if ctor == "core.NewSyncContributionDuty" {
+				ok, unsure, why := c15SyncSlots(e, fn, sink, dutyCall.Call.Args[0], slotP)
+				if unsure {
+					c.Unsure(name+" slot range", sink.Pos(), why)
+				} else {
+					c.Check(name+" slot range", sink.Pos(), ok, why)
+				}
+			} else {
+				c.Check(name+" duty slot", sink.Pos(), ofD(dutyCall.Call.Args[0], "Slot"),
+					"the duty is not scheduled at the slot of the beacon duty it is defined by")
+				// a comparison of d.Slot with slot.Slot that is known, on every path, to exclude d.Slot < slot.Slot
+				atoms := c15Atoms(e, fn, func(h *ssa.Function) []c15Atom {
+					var out []c15Atom
+					for _, in := range an.Instrs(h, false) {
+						bin, ok := in.(*ssa.BinOp)
+						if !ok {
+							continue
+						}
+						op, x, y := bin.Op, bin.X, bin.Y
+						if ofD(y, "Slot") {
+							x, y = y, x
+							switch op {
+							case token.LSS:
+								op = token.GTR
+							case token.GTR:
+								op = token.LSS
+							case token.LEQ:
+								op = token.GEQ
+							case token.GEQ:
+								op = token.LEQ
+							}
+						}
+						if !ofD(x, "Slot") || !e.fieldOf(y, "Slot", slotP) {
+							continue
+						}
+						switch op { // d.Slot op slot.Slot
+						case token.LSS, token.LEQ: // false ⇒ d.Slot >= slot.Slot (resp. >)
+							out = append(out, c15Atom{v: bin, want: false})
+						case token.GEQ, token.GTR, token.EQL: // true ⇒ d.Slot >= slot.Slot
+							out = append(out, c15Atom{v: bin, want: true})
+						}
+					}
+					return out
+				}, 0)
+				c15CheckHolds(c, name+" slot skip", fn, sink, atoms,
+					"a beacon duty for a slot before the resolving slot reaches the store (no effective `d.Slot < slot.Slot` skip)")
+			}
+			// epoch bookkeeping
+			ep := c15Static(epochArg, "core.Slot.Epoch")
+			if ep == nil {
+				c.Unsure(name+" epoch", sink.Pos(), "the epoch the definition is filed under is not the result of Slot.Epoch()")
+			} else {
+				c.Check(name+" epoch", sink.Pos(), e.rooted(ep.Call.Args[0], slotP),
+					"the definition is not filed under the epoch being resolved (it would not be trimmed with it)")
+			}
+			// public key: looked up by D's validator index in vals, found on every path
+			// (the lookup itself, or a single-use helper that returns exactly its two results)
+			var lookups []ssa.CallInstruction
+			for _, in := range an.Instrs(fn, false) {
+				k, isCall := in.(*ssa.Call)
+				if !isCall || k.Call.Signature().Results().Len() != 2 {
+					continue
+				}
+				var r0, r1 ssa.Value
+				for _, ref := range *k.Referrers() {
+					if ex, ok := ref.(*ssa.Extract); ok {
+						if ex.Index == 0 {
+							r0 = ex
+						} else {
+							r1 = ex
+						}
+					}
+				}
+				if r0 == nil || r1 == nil {
+					continue
+				}
+				p0, i0 := e.resultOf(r0)
+				p1, i1 := e.resultOf(r1)
+				if p0 == nil || p0 != p1 || i0 != 0 || i1 != 1 || !an.Static(c15P+".validators.PubKeyFromIndex")(&p0.Call) {
+					continue
+				}
+				a := p0.Call.Args
+				if e.rooted(a[0], valsP) && ofD(a[1], "ValidatorIndex") {
+					lookups = append(lookups, k)
+				}
+			}
+			if len(lookups) == 0 {
+				hidden := false
+				for _, in := range an.Instrs(fn, false) {
+					k, isCall := in.(*ssa.Call)
+					if !isCall || k.Call.StaticCallee() == nil || k.Call.StaticCallee().Pkg != e.pkg || an.Static(c15P+".validators.PubKeyFromIndex")(&k.Call) {
+						continue
+					}
+					if res := k.Call.Signature().Results(); res.Len() >= 2 && an.TypeName(res.At(0).Type()) == "core.PubKey" {
+						hidden = true
+					}
+				}
+				if hidden {
+					c.Unsure(name+" validator lookup", sink.Pos(), "the public key comes from a helper that could not be reduced to vals.PubKeyFromIndex(d.ValidatorIndex)")
+					continue
+				}
+				c.Bad(name+" validator lookup", sink.Pos(), "no vals.PubKeyFromIndex(d.ValidatorIndex) for the beacon duty precedes the store: duties of validators outside the active cluster set are stored")
+				continue
+			}
+			var idx ssa.CallInstruction
+			why := "the boolean result is discarded"
+			undecided := false
+			for _, k := range lookups {
+				_, okv := an.StatusOf(k, 1)
+				if okv == nil {
+					continue
+				}
+				all, decided := c15Arrivals(fn, sink, []ssa.Value{okv}, nil, func(f *an.H15Facts) bool {
+					kk, known := f.Known(okv)
+					return known && kk
+				})
+				if !decided {
+					undecided = true
+				}
+				if all && decided {
+					idx = k
+				} else {
+					why = "control reaches the store although the validator was not found"
+				}
+			}
+			if idx == nil && undecided {
+				c.Unsure(name+" validator lookup", sink.Pos(), "too many paths to enumerate")
+				continue
+			}
+			if !c.Check(name+" validator lookup", sink.Pos(), idx != nil, "vals.PubKeyFromIndex(d.ValidatorIndex): "+why) {
+				continue
+			}
+			var K ssa.Value
+			for _, ref := range *idx.Value().Referrers() {
+				if ex, ok := ref.(*ssa.Extract); ok && ex.Index == 0 {
+					K = ex
+				}
+			}
+			// equality of the looked-up key and the beacon duty's key, known on every path
+			var other ssa.Value
+			eqs := c15Atoms(e, fn, func(h *ssa.Function) []c15Atom {
+				var out []c15Atom
+				for _, in := range an.Instrs(h, false) {
+					bin, ok := in.(*ssa.BinOp)
+					if !ok || (bin.Op != token.EQL && bin.Op != token.NEQ) || K == nil {
+						continue
+					}
+					x, y := bin.X, bin.Y
+					if e.origin(y) == K {
+						x, y = y, x
+					}
+					if e.origin(x) != K {
+						continue
+					}
+					from := c15Static(e.origin(y), "core.PubKeyFrom48Bytes")
+					if from == nil || !ofD(from.Call.Args[0], "PubKey") {
+						continue
+					}
+					out = append(out, c15Atom{v: bin, want: bin.Op == token.EQL})
+					if h == fn {
+						other = from
+					}
+				}
+				return out
+			}, 0)
+			c15CheckHolds(c, name+" public key equality", fn, sink, eqs,
+				"the store is reachable without the looked-up public key having been found equal to the beacon duty's own public key")
+			pk := c15Local(pkArg)
+			c.Check(name+" public key argument", sink.Pos(), K != nil && (pk == K || (other != nil && (pk == other || an.Equiv(pk, other)))),
+				"the public key the definition is stored under is not the checked key of this beacon duty")
+		}
+	}
+	for ctor := range c15DefFor {
+		if !kinds[ctor] {
+			c.Unsure("setDutyDefinition("+strings.TrimPrefix(ctor, "core.")+")", rd.Pos(), "no store of a duty built by "+ctor+" found in the resolve functions run by resolveDuties")
+		}
+	}
+	// vals handed to the resolvers is the checked result of resolveActiveValidators
+	rav := c.OneCall(rd, an.Static(c15P+".resolveActiveValidators"), "resolveActiveValidators", false)
+	for _, rc := range rcs {
+		v := c15ArgT(rc.call.Common(), c15P+".validators")
+		ex, ok := e.origin(v).(*ssa.Extract)
+		good := ok && ex.Index == 0 && ex.Tuple == rav.Value()
+		undecided := false
+		if good {
+			if top := c15TopSite(e, rc.call, rd); top != nil {
+				g, decided, _ := c15ErrNilAt(rd, rav, nil, top)
+				good, undecided = g, !decided
+			} else {
+				good, undecided = false, true
+			}
+		}
+		for _, rn := range rc.names {
+			if undecided {
+				c.Unsure("resolveDuties→"+rn+" validators", rc.call.Pos(), "cannot follow the call up to resolveDuties, or too many paths")
+				continue
+			}
+			c.Check("resolveDuties→"+rn+" validators", rc.call.Pos(), good, "the validator list is not the checked result of resolveActiveValidators")
+		}
+	}
+	c15ActiveFilter(c)
 }
 
 // c15SyncSlots: the duty slot is sl.Slot of a loop variable that starts at the resolving slot, advances by
 // Next() and stays inside the resolving slot's epoch.
-func c15SyncSlots(fn *ssa.Function, sink ssa.Instruction, slotArg, slotP ssa.Value) (bool, string) {
-	b, n, ok := c15FieldRead(slotArg)
+func c15SyncSlots(e *c15Env, fn *ssa.Function, sink ssa.Instruction, slotArg, slotP ssa.Value) (ok bool, unsure bool, why string) {
+	b, n, isField := c15FieldRead(slotArg)
 	sl, isAlloc := b.(*ssa.Alloc)
-	if !ok || n != "Slot" || !isAlloc {
-		return false, "sync contribution duty slot is not the Slot of a local slot variable"
+	if !isField || n != "Slot" || !isAlloc {
+		return false, true, "sync contribution duty slot is not the Slot of a local slot variable"
 	}
+	var advances []*ssa.Store
 	for _, ref := range *sl.Referrers() {
-		st, ok := ref.(*ssa.Store)
-		if !ok {
+		st, isStore := ref.(*ssa.Store)
+		if !isStore {
 			continue
 		}
 		if st.Addr != ssa.Value(sl) {
-			return false, "the slot variable escapes"
+			return false, true, "the slot variable escapes"
 		}
-		if c15Rooted(st.Val, slotP) && an.TypeName(st.Val.Type()) == "core.Slot" {
-			if _, _, isField := c15FieldRead(st.Val); !isField {
+		if e.rooted(st.Val, slotP) && an.TypeName(st.Val.Type()) == "core.Slot" {
+			if _, _, isF := c15FieldRead(st.Val); !isF {
 				continue
 			}
 		}
 		if next := c15Static(st.Val, "core.Slot.Next"); next != nil && c15IsLoadOf(next.Call.Args[0], sl) {
+			advances = append(advances, st)
 			continue
 		}
-		return false, "the slot variable is assigned something other than the resolving slot or its own Next()"
+		return false, false, "the slot variable is assigned something other than the resolving slot or its own Next()"
 	}
-	for _, blk := range fn.Blocks {
-		iff, isIf := blk.Instrs[len(blk.Instrs)-1].(*ssa.If)
-		if !isIf {
-			continue
-		}
-		bin, isBin := iff.Cond.(*ssa.BinOp)
+	var eqs []ssa.Value
+	truth := map[ssa.Value]bool{}
+	for _, in := range an.Instrs(fn, false) {
+		bin, isBin := in.(*ssa.BinOp)
 		if !isBin || (bin.Op != token.EQL && bin.Op != token.NEQ) {
 			continue
 		}
@@ -1319,92 +2801,125 @@ func c15SyncSlots(fn *ssa.Function, sink ssa.Instruction, slotArg, slotP ssa.Val
 		if !c15IsLoadOf(ex.Call.Args[0], sl) {
 			ex, ey = ey, ex
 		}
-		if !c15IsLoadOf(ex.Call.Args[0], sl) || !c15Rooted(ey.Call.Args[0], slotP) {
+		if !c15IsLoadOf(ex.Call.Args[0], sl) || !e.rooted(ey.Call.Args[0], slotP) {
 			continue
 		}
-		eq := blk.Succs[0]
-		if bin.Op == token.NEQ {
-			eq = blk.Succs[1]
+		// the epoch of sl must be read after its last assignment: no assignment of sl on a way from the
+		// test to the store (that does not pass the test again)
+		stale := false
+		for _, a := range advances {
+			if c15ReachAvoiding(ex, a, ex.Block()) && c15ReachAvoiding(a, sink, ex.Block()) {
+				stale = true
+			}
 		}
-		if eq.Dominates(sink.Block()) {
-			return true, ""
+		if stale {
+			why = "the slot variable is advanced between the epoch test and the store"
+			continue
 		}
+		eqs = append(eqs, bin)
+		truth[bin] = bin.Op == token.EQL
 	}
-	return false, "the store is not guarded by sl.Epoch() == slot.Epoch(): sync duties are set outside the resolved epoch"
+	if why == "" {
+		why = "the store is not guarded by sl.Epoch() == slot.Epoch(): sync duties are set outside the resolved epoch"
+	}
+	all, decided := c15Arrivals(fn, sink, eqs, nil, func(f *an.H15Facts) bool {
+		for _, b := range eqs {
+			if k, known := f.Known(b); known && k == truth[b] {
+				return true
+			}
+		}
+		return false
+	})
+	if !decided {
+		return false, true, "too many paths to enumerate"
+	}
+	return all, false, why
 }
 
-// c15ActiveFilter: resolveActiveValidators appends a validator only on the IsActive edge or the
-// activation-epoch-equals-epoch edge.
+// c15ActiveFilter: resolveActiveValidators appends a validator only on paths on which Status.IsActive()
+// held or the activation epoch equals the epoch being resolved.
 func c15ActiveFilter(c *rt.Ctx) {
+	e := c15NewEnv(c)
 	fn := c.Fn(c15P + ".resolveActiveValidators")
-	epochP := c15Param(c, fn, 3, "epoch")
-	pass := map[c15Edge]bool{}
+	epochP := c15ParamT(c, fn, "uint64")
 	var appends []*ssa.Call
 	for _, in := range an.Instrs(fn, false) {
-		call, ok := in.(*ssa.Call)
-		if !ok {
-			continue
-		}
-		if b, ok := call.Call.Value.(*ssa.Builtin); ok && b.Name() == "append" && an.TypeName(call.Type()) == "[]"+c15P+".validator" {
-			appends = append(appends, call)
-		}
-		if an.Static("github.com/attestantio/go-eth2-client/api/v1.ValidatorState.IsActive")(&call.Call) {
-			if _, n, ok := c15FieldRead(call.Call.Args[0]); ok && n == "Status" {
-				c15AddPass(pass, fn, call, true)
+		if x, ok := in.(*ssa.Call); ok {
+			if b, ok := x.Call.Value.(*ssa.Builtin); ok && b.Name() == "append" && an.TypeName(x.Type()) == "[]"+c15P+".validator" {
+				appends = append(appends, x)
 			}
 		}
 	}
-	for _, b := range fn.Blocks {
-		iff, isIf := b.Instrs[len(b.Instrs)-1].(*ssa.If)
-		if !isIf {
-			continue
+	atoms := c15Atoms(e, fn, func(h *ssa.Function) []c15Atom {
+		var out []c15Atom
+		for _, in := range an.Instrs(h, false) {
+			switch x := in.(type) {
+			case *ssa.Call:
+				if an.Static("github.com/attestantio/go-eth2-client/api/v1.ValidatorState.IsActive")(&x.Call) {
+					if _, n, ok := c15FieldRead(e.origin(x.Call.Args[0])); ok && n == "Status" {
+						out = append(out, c15Atom{v: x, want: true})
+					}
+				}
+			case *ssa.BinOp:
+				if x.Op != token.EQL && x.Op != token.NEQ {
+					continue
+				}
+				a, b := x.X, x.Y
+				if e.rooted(a, epochP) {
+					a, b = b, a
+				}
+				if _, n, ok := c15FieldRead(e.origin(a)); !ok || n != "ActivationEpoch" || !e.rooted(b, epochP) {
+					continue
+				}
+				out = append(out, c15Atom{v: x, want: x.Op == token.EQL})
+			}
 		}
-		bin, isBin := iff.Cond.(*ssa.BinOp)
-		if !isBin || (bin.Op != token.EQL && bin.Op != token.NEQ) {
-			continue
-		}
-		x, y := bin.X, bin.Y
-		if an.Unwrap(x) == ssa.Value(epochP) {
-			x, y = y, x
-		}
-		if _, n, ok := c15FieldRead(x); !ok || n != "ActivationEpoch" || an.Unwrap(y) != ssa.Value(epochP) {
-			continue
-		}
-		if bin.Op == token.EQL {
-			pass[c15Edge{b, 0}] = true
-		} else {
-			pass[c15Edge{b, 1}] = true
-		}
-	}
+		return out
+	}, 0)
 	if len(appends) == 0 {
 		c.Bail("resolveActiveValidators: no append to the validator list")
 	}
 	for _, a := range appends {
-		c.Check("resolveActiveValidators append active-only", a.Pos(), !c15ReachNoPass(fn, pass, a.Block()),
+		c15CheckHolds(c, "resolveActiveValidators append active-only", fn, a, atoms,
 			"a validator is added to the active list on a path where neither Status.IsActive() held nor ActivationEpoch == epoch")
-		// index and status belong to the same map entry
+		// index and status belong to the same map entry: the recorded index is the key of the iteration
+		// whose value was tested (range key, or the key the entry was looked up with)
 		elems := appendedElems(a)
-		good := false
+		good, unsure := false, true
 		if len(elems) == 1 {
 			if ld, ok := elems[0].(*ssa.UnOp); ok {
 				if lit, ok := ld.X.(*ssa.Alloc); ok {
-					for _, ref := range *lit.Referrers() {
-						fa, ok := ref.(*ssa.FieldAddr)
-						if !ok || an.FieldKey(fa.X.Type(), fa.Field) != c15P+".validator.VIdx" {
-							continue
+					for _, st := range c15StructInit(lit)[c15P+".validator.VIdx"] {
+						key := c15Local(st.Val)
+						if ex, ok := key.(*ssa.Extract); ok && ex.Index == 1 {
+							if _, isNext := ex.Tuple.(*ssa.Next); isNext {
+								good, unsure = true, false
+							}
 						}
-						for _, r2 := range *fa.Referrers() {
-							if st, ok := r2.(*ssa.Store); ok {
-								if ex, ok := st.Val.(*ssa.Extract); ok && ex.Index == 1 {
-									if _, isNext := ex.Tuple.(*ssa.Next); isNext {
-										good = true
-									}
-								}
+						if _, isConst := key.(*ssa.Const); isConst {
+							unsure = false
+						}
+						// entry looked up by the recorded key: val := m[key]
+						for _, at := range atoms {
+							call, isCall := at.v.(*ssa.Call)
+							if !isCall || len(call.Call.Args) == 0 {
+								continue
+							}
+							b, _, isField := c15FieldRead(call.Call.Args[0])
+							if !isField {
+								continue
+							}
+							if lk, ok := c15Local(b).(*ssa.Lookup); ok && c15Local(lk.Index) == key {
+								good, unsure = true, false
 							}
 						}
 					}
 				}
 			}
+		}
+		if !good && unsure {
+			c.Unsure("resolveActiveValidators append index", a.Pos(), "cannot relate the recorded validator index to the map entry that was tested")
+			continue
 		}
 		c.Check("resolveActiveValidators append index", a.Pos(), good, "the validator index recorded is not the key of the beacon node's validator map entry")
 	}
@@ -1414,116 +2929,194 @@ func c15ActiveFilter(c *rt.Ctx) {
 // U4 first definition wins; lock discipline
 
 func c15U4(c *rt.Ctx) {
+	e := c15NewEnv(c)
 	fn := c.Fn(c15P + ".Scheduler.setDutyDefinition")
-	dutyP := c15Param(c, fn, 1, "duty")
-	pkP := c15Param(c, fn, 3, "pubkey")
-	setP := c15Param(c, fn, 4, "set")
+	dutyP := c15ParamT(c, fn, "core.Duty")
+	pkP := c15ParamT(c, fn, "core.PubKey")
+	setP := c15ParamT(c, fn, "core.DutyDefinition")
+	isDuties := isFieldMap(c15Sched + ".duties")
 	var inner, outer []*ssa.MapUpdate
 	for _, up := range mapUpdates(fn, func(ssa.Value) bool { return true }) {
+		if up.Parent() != fn {
+			continue
+		}
 		switch {
-		case isFieldMap(c15Sched + ".duties")(up.Map):
-			outer = append(outer, up)
 		case an.TypeName(up.Map.Type()) == "core.DutyDefinitionSet":
 			inner = append(inner, up)
+		case isDuties(c15Local(up.Map)):
+			outer = append(outer, up)
 		}
 	}
-	if len(inner) == 0 || len(outer) == 0 {
-		c.Bail("setDutyDefinition: writes to the definition set / duties map not found")
+	if len(inner) == 0 {
+		c.Bail("setDutyDefinition: write to the definition set not found")
 	}
-	// outer lookup s.duties[duty]
-	var outerLk *ssa.Lookup
+	// stored(v): v is the set currently stored for the duty, s.duties[duty]
+	stored := func(v ssa.Value) bool {
+		v = c15Local(v)
+		if ex, ok := v.(*ssa.Extract); ok && ex.Index == 0 {
+			v = ex.Tuple
+		}
+		lk, ok := v.(*ssa.Lookup)
+		return ok && isDuties(c15Local(lk.X)) && c15Local(lk.Index) == ssa.Value(dutyP)
+	}
+	fresh := func(v ssa.Value) bool { _, ok := c15Local(v).(*ssa.MakeMap); return ok }
+	// facts: "the duty has no stored set" and "the set has no entry for the validator"
+	var absent, missing []ssa.Value
+	missingOn := map[ssa.Value]ssa.Value{} // ok value -> map looked up
 	for _, in := range an.Instrs(fn, false) {
-		if lk, ok := in.(*ssa.Lookup); ok && lk.CommaOk && isFieldMap(c15Sched+".duties")(lk.X) && lk.Index == ssa.Value(dutyP) {
-			outerLk = lk
+		lk, ok := in.(*ssa.Lookup)
+		if !ok || !lk.CommaOk {
+			continue
 		}
+		var okv ssa.Value
+		for _, ref := range *lk.Referrers() {
+			if ex, isEx := ref.(*ssa.Extract); isEx && ex.Index == 1 {
+				okv = ex
+			}
+		}
+		if okv == nil {
+			continue
+		}
+		switch {
+		case isDuties(c15Local(lk.X)) && c15Local(lk.Index) == ssa.Value(dutyP):
+			absent = append(absent, okv)
+		case an.TypeName(lk.X.Type()) == "core.DutyDefinitionSet" && c15Local(lk.Index) == ssa.Value(pkP):
+			missing = append(missing, okv)
+			missingOn[okv] = lk.X
+		}
+	}
+	// `s.duties[duty] == nil` is the other spelling of "the duty has no stored set"
+	absentWhen := map[ssa.Value]bool{}
+	for _, v := range absent {
+		absentWhen[v] = false
+	}
+	for _, in := range an.Instrs(fn, false) {
+		bin, ok := in.(*ssa.BinOp)
+		if !ok || (bin.Op != token.EQL && bin.Op != token.NEQ) {
+			continue
+		}
+		if (an.IsNilConst(bin.Y) && stored(bin.X)) || (an.IsNilConst(bin.X) && stored(bin.Y)) {
+			absent = append(absent, bin)
+			absentWhen[bin] = bin.Op == token.EQL
+		}
+	}
+	track := append(append([]ssa.Value{}, absent...), missing...)
+	isSetPhi := func(p *ssa.Phi) bool { return an.TypeName(p.Type()) == "core.DutyDefinitionSet" }
+	knownFalse := func(f *an.H15Facts, vs []ssa.Value) bool {
+		for _, v := range vs {
+			want, special := absentWhen[v]
+			if !special {
+				want = false
+			}
+			if k, known := f.Known(v); known && k == want {
+				return true
+			}
+		}
+		return false
+	}
+	// a fresh set may only come into play when the duty has no stored set (else the other validators' definitions are lost)
+	for _, up := range outer {
+		name := "setDutyDefinition duties[duty] write-back"
+		if c15Local(up.Key) != ssa.Value(dutyP) {
+			c.Bad(name, posOf(up), "s.duties is written under a key other than the duty parameter")
+			continue
+		}
+		why := ""
+		all, decided := c15Arrivals(fn, up, track, isSetPhi, func(f *an.H15Facts) bool {
+			v := f.Resolve(c15Local(up.Value))
+			switch {
+			case fresh(v):
+				if !knownFalse(f, absent) {
+					why = "a fresh definition set replaces the stored one although the duty already has definitions (other validators' definitions are lost)"
+					return false
+				}
+				return true
+			case stored(v):
+				if knownFalse(f, absent) {
+					why = "the stored set is used on the path where the duty has none"
+					return false
+				}
+				return true
+			}
+			why = "s.duties[duty] is assigned something other than the duty's own definition set"
+			return false
+		})
+		if !decided {
+			c.Unsure(name, posOf(up), "too many paths to enumerate")
+			continue
+		}
+		c.Check(name, posOf(up), all, why)
 	}
 	for _, up := range inner {
-		// not-present test on the same map and key
-		ok, why := false, "no `_, present := defSet[pubkey]` test guards the write"
-		for _, in := range an.Instrs(fn, false) {
-			lk, isLk := in.(*ssa.Lookup)
-			if !isLk || !lk.CommaOk || lk.X != up.Map || lk.Index != up.Key {
-				continue
-			}
-			for _, ref := range *lk.Referrers() {
-				ex, isEx := ref.(*ssa.Extract)
-				if !isEx || ex.Index != 1 {
-					continue
-				}
-				for _, cd := range an.CondsOn(fn, ex) {
-					absentB, ok1 := c15BoolSucc(cd, false)
-					presentB, ok2 := c15BoolSucc(cd, true)
-					if !ok1 || !ok2 {
-						continue
-					}
-					if !absentB.Dominates(up.Block()) || !an.Dominates(lk, up) {
-						why = "the not-present edge does not dominate the write"
-						continue
-					}
-					if !an.EdgeCuts(presentB, up, nil) {
-						why = "the write is reachable when a definition for (duty, validator) is already present: a later resolution overwrites the first"
-						continue
-					}
-					ok = true
-				}
-			}
-		}
-		c.Check("setDutyDefinition first definition wins", posOf(up), ok, why)
-		c.Check("setDutyDefinition key and value", posOf(up), up.Key == ssa.Value(pkP) && an.Unwrap(up.Value) == ssa.Value(setP),
-			"the entry written is not (pubkey parameter → definition parameter)")
-		// the map written is the stored set for this duty, or a fresh one only if none is stored
-		prov, pwhy := false, "the definition set written to is not s.duties[duty] (or a fresh set when the duty has none)"
-		if outerLk != nil {
-			var stored, okv ssa.Value
-			for _, ref := range *outerLk.Referrers() {
-				if ex, isEx := ref.(*ssa.Extract); isEx {
-					if ex.Index == 0 {
-						stored = ex
-					} else {
-						okv = ex
+		// not-present test on the same set and key, known on every path to the write
+		why := ""
+		provWhy := ""
+		prov, linked, provHelper := true, true, false
+		all, decided := c15Arrivals(fn, up, track, isSetPhi, func(f *an.H15Facts) bool {
+			m := f.Resolve(c15Local(up.Map))
+			if !stored(m) {
+				isLinked := false
+				for _, o := range outer {
+					if c15Local(o.Value) == c15Local(up.Map) || f.Resolve(c15Local(o.Value)) == m {
+						isLinked = true
 					}
 				}
-			}
-			var absent *ssa.BasicBlock
-			if okv != nil {
-				for _, b := range c15BoolEdges(fn, okv, false) {
-					absent = b
+				if !isLinked {
+					linked = false
 				}
 			}
-			switch m := up.Map.(type) {
-			case *ssa.Phi:
-				prov = true
-				for i, e := range m.Edges {
-					pred := m.Block().Preds[i]
-					switch {
-					case e == stored:
-						// the stored set flows in only when present
-						if absent != nil && absent.Dominates(pred) {
-							prov, pwhy = false, "the stored set is used on the not-present edge"
-						}
-					default:
-						if _, isMake := e.(*ssa.MakeMap); !isMake || absent == nil || !absent.Dominates(pred) {
-							prov, pwhy = false, "a fresh definition set replaces the stored one although the duty already has definitions (other validators' definitions are lost)"
-						}
-					}
+			// provenance of the set written to
+			switch {
+			case stored(m):
+				if _, isEx := m.(*ssa.Extract); isEx && knownFalse(f, absent) {
+					prov, provWhy = false, "the stored set is used on the path where the duty has none"
+				}
+			case fresh(m):
+				if !knownFalse(f, absent) {
+					prov, provWhy = false, "a fresh definition set replaces the stored one although the duty already has definitions (other validators' definitions are lost)"
 				}
 			default:
-				prov = up.Map == stored
+				prov, provWhy = false, "the definition set written to is not s.duties[duty] (or a fresh set when the duty has none)"
+				if call, isCall := c15Local(m).(*ssa.Call); isCall && call.Call.StaticCallee() != nil && call.Call.StaticCallee().Pkg == e.pkg {
+					provHelper = true // e.g. a get-or-create helper: not followed
+				}
+				if ex, isEx := c15Local(m).(*ssa.Extract); isEx {
+					if call, isCall := ex.Tuple.(*ssa.Call); isCall && call.Call.StaticCallee() != nil && call.Call.StaticCallee().Pkg == e.pkg {
+						provHelper = true
+					}
+				}
 			}
-		}
-		c.Check("setDutyDefinition set provenance", posOf(up), prov, pwhy)
-	}
-	for _, up := range outer {
-		ok := up.Key == ssa.Value(dutyP)
-		for _, in := range inner {
-			if up.Value != in.Map {
-				ok = false
+			for _, okv := range missing {
+				k, known := f.Known(okv)
+				if !known || k {
+					continue
+				}
+				tm := f.Resolve(c15Local(missingOn[okv]))
+				if tm == m || (stored(tm) && (stored(m) || fresh(m))) {
+					return true
+				}
 			}
+			why = "the write is reachable without a `_, present := defSet[pubkey]` test of the same set having found no entry: a later resolution overwrites the first"
+			return false
+		})
+		if !decided {
+			c.Unsure("setDutyDefinition first definition wins", posOf(up), "too many paths to enumerate")
+			continue
 		}
-		c.Check("setDutyDefinition duties[duty] write-back", posOf(up), ok, "s.duties[duty] is not assigned the definition set that was just extended")
+		if provHelper {
+			c.Unsure("setDutyDefinition set provenance", posOf(up), "the definition set written to is obtained from a helper of the package that is not followed")
+			continue
+		}
+		c.Check("setDutyDefinition first definition wins", posOf(up), all, why)
+		c.Check("setDutyDefinition key and value", posOf(up), c15Local(up.Key) == ssa.Value(pkP) && c15Local(up.Value) == ssa.Value(setP),
+			"the entry written is not (pubkey parameter → definition parameter)")
+		c.Check("setDutyDefinition set provenance", posOf(up), prov, provWhy)
+		// the extended set is (already or afterwards) the one stored under the duty: decided per path below
+		c.Check("setDutyDefinition set is stored", posOf(up), linked, "the definition set that was extended is not stored under s.duties[duty]")
 	}
 	// nobody else writes definition sets or the duties map
-	for _, g := range an.PkgFuncs(c.SSAPkg(c15P)) {
+	underSet := e.owned(fn)
+	for _, g := range e.funcs {
 		if g == fn {
 			continue
 		}
@@ -1531,7 +3124,11 @@ func c15U4(c *rt.Ctx) {
 			if up.Parent() != g {
 				continue
 			}
-			if isFieldMap(c15Sched+".duties")(up.Map) || an.TypeName(up.Map.Type()) == "core.DutyDefinitionSet" {
+			if isDuties(c15Local(up.Map)) || an.TypeName(up.Map.Type()) == "core.DutyDefinitionSet" {
+				if underSet[g] {
+					c.Unsure(an.FuncName(g)+" writes duty definitions", posOf(up), "part of setDutyDefinition was moved into a helper; the first-wins checks are not followed there")
+					continue
+				}
 				c.Bad(an.FuncName(g)+" writes duty definitions", posOf(up), "duty definitions are written outside setDutyDefinition (first-wins rule bypassed)")
 			}
 		}
@@ -1549,30 +3146,63 @@ func c15U4(c *rt.Ctx) {
 // U5 clone per subscriber
 
 func c15U5(c *rt.Ctx) {
-	_, trig := c15Trigger(c)
-	defP := c15Param(c, trig, 1, "defSet")
-	for _, s := range an.Calls(trig, an.FieldCall(c15Subs), false) {
+	e := c15NewEnv(c)
+	sched, trig := c15OneTrigger(c, e)
+	for _, s := range an.Calls(trig, e.subCall(), false) {
 		name := an.FuncName(trig) + " subscriber definition set"
-		arg := s.Common().Args[2]
-		ex, ok := c15Local(arg).(*ssa.Extract)
-		var clone *ssa.Call
-		if ok && ex.Index == 0 {
-			clone, _ = ex.Tuple.(*ssa.Call)
+		arg := c15ArgT(s.Common(), "core.DutyDefinitionSet")
+		if arg == nil {
+			c.Bail("subscriber call: unexpected signature")
 		}
-		if clone == nil || !an.Static("core.DutyDefinitionSet.Clone")(&clone.Call) {
+		// made: the call in the trigger function that produced the argument (defSet.Clone() itself, or a
+		// single-use helper that returns exactly the two results of one defSet.Clone())
+		var made *ssa.Call
+		if ex, ok := c15Local(arg).(*ssa.Extract); ok && ex.Index == 0 {
+			made, _ = ex.Tuple.(*ssa.Call)
+		}
+		clone, ci := e.resultOf(arg)
+		switch c15Local(arg).(type) {
+		case *ssa.Parameter, *ssa.FreeVar:
+			made = nil
+			if clone != nil && ci == 0 && an.Static("core.DutyDefinitionSet.Clone")(&clone.Call) {
+				c.Unsure(name, s.Pos(), "the clone is made by the caller of the function that calls the subscriber; cannot tell whether it is made once per subscriber")
+				continue
+			}
+		}
+		if made == nil || clone == nil || ci != 0 || !an.Static("core.DutyDefinitionSet.Clone")(&clone.Call) {
 			c.Bad(name, s.Pos(), "subscribers receive something other than the result of defSet.Clone()")
 			continue
 		}
-		if an.Unwrap(clone.Call.Args[0]) != ssa.Value(defP) {
+		if made != clone {
+			errs, _ := an.StatusOf(made, -1)
+			ec, ei := (*ssa.Call)(nil), 0
+			if len(errs) == 1 {
+				ec, ei = e.resultOf(errs[0])
+			}
+			if ec != clone || ei != 1 {
+				c.Unsure(name, s.Pos(), "the clone is made in a helper whose error result is not the clone's error")
+				continue
+			}
+		}
+		src, _ := e.origin(clone.Call.Args[0]).(*ssa.Extract)
+		var get *ssa.Call
+		if src != nil && src.Index == 0 {
+			get, _ = src.Tuple.(*ssa.Call)
+		}
+		if get == nil || get.Parent() != sched || !an.Static(c15P+".Scheduler.getDutyDefinitionSet")(&get.Call) {
 			c.Bad(name, s.Pos(), "the clone handed to subscribers is not a clone of the definition set the goroutine was started with")
 			continue
 		}
 		l := an.InnermostLoop(trig, s.Block())
-		if l == nil || !l.Body[clone.Block()] {
+		if l == nil || made.Parent() != trig || !l.Body[made.Block()] {
 			c.Bad(name, s.Pos(), "one clone is shared by all subscribers (made outside the subscriber loop)")
 			continue
 		}
-		g, why := an.Guarded(clone, s, an.DefaultGuard)
+		g, decided, why := c15ErrNilAt(trig, made, nil, s)
+		if !decided {
+			c.Unsure(name, s.Pos(), "too many paths to enumerate")
+			continue
+		}
 		c.Check(name, s.Pos(), g, "defSet.Clone(): "+why)
 	}
 }
@@ -1581,8 +3211,9 @@ func c15U5(c *rt.Ctx) {
 // U6 resolved only after success
 
 func c15U6(c *rt.Ctx) {
+	e := c15NewEnv(c)
 	rd := c.Fn(c15P + ".Scheduler.resolveDuties")
-	slotP := c15Param(c, rd, 2, "slot")
+	slotP := c15ParamT(c, rd, "core.Slot")
 	setN := c15P + ".Scheduler.setResolvedEpoch"
 	const sentinel = int64(^uint64(0) >> 1) // math.MaxInt64, the "nothing resolved" marker
 	rav := c.OneCall(rd, an.Static(c15P+".resolveActiveValidators"), "resolveActiveValidators", false)
@@ -1592,12 +3223,51 @@ func c15U6(c *rt.Ctx) {
 			vals = ex
 		}
 	}
-	resolvers := []string{"resolveAttDuties", "resolveProDuties", "resolveSyncCommDuties"}
+	var resolverNames []string
+	resolvers := c15ResolverFns(c, e)
+	for _, fn := range resolvers {
+		resolverNames = append(resolverNames, c15ShortName(fn))
+	}
+	rcs := c15ResolverCalls(c, e, rd, resolvers)
+	if len(rcs) == 0 {
+		c.Bail("resolveDuties runs none of the functions that store duty definitions")
+	}
+	// comparisons of len(vals) with a constant (in resolveDuties or a helper below it)
+	isLen := func(v ssa.Value) bool {
+		call, ok := c15Local(v).(*ssa.Call)
+		if !ok {
+			return false
+		}
+		b, ok := call.Call.Value.(*ssa.Builtin)
+		return ok && b.Name() == "len" && len(call.Call.Args) == 1 && vals != nil && e.origin(call.Call.Args[0]) == vals
+	}
+	emptyIn := func(h *ssa.Function) ([]ssa.Value, func(f *an.H15Facts) bool) {
+		var cmps []ssa.Value
+		for _, in := range an.Instrs(h, false) {
+			if bin, ok := in.(*ssa.BinOp); ok && (isLen(bin.X) || isLen(bin.Y)) {
+				cmps = append(cmps, bin)
+			}
+		}
+		return cmps, func(f *an.H15Facts) bool {
+			for _, lc := range cmps {
+				if k, known := f.Known(lc); known && c15LenZero(lc.(*ssa.BinOp), isLen, k) {
+					return true
+				}
+			}
+			return false
+		}
+	}
+	lenCmps, isEmpty := emptyIn(rd)
+	underRd := e.owned(rd)
 	n := 0
-	for _, fn := range an.PkgFuncs(c.SSAPkg(c15P)) {
+	for _, fn := range e.funcs {
 		for _, call := range an.Calls(fn, an.Static(setN), false) {
-			arg := call.Common().Args[1]
+			arg := c15ArgT(call.Common(), "uint64")
 			if fn != rd {
+				if underRd[fn] {
+					c.Unsure(an.FuncName(fn)+" setResolvedEpoch", call.Pos(), "the epoch is marked resolved in a helper of resolveDuties; the success conditions cannot be followed there")
+					continue
+				}
 				k, ok := an.ConstInt(arg)
 				c.Check(an.FuncName(fn)+" setResolvedEpoch", call.Pos(), ok && k == sentinel,
 					"an epoch is marked resolved outside resolveDuties (only the invalidating sentinel math.MaxInt64 may be set elsewhere)")
@@ -1606,59 +3276,121 @@ func c15U6(c *rt.Ctx) {
 			n++
 			name := fmt.Sprintf("resolveDuties setResolvedEpoch#%d", n)
 			ep := c15Static(arg, "core.Slot.Epoch")
-			if !c.Check(name+" epoch", call.Pos(), ep != nil && c15Rooted(ep.Call.Args[0], slotP),
+			if !c.Check(name+" epoch", call.Pos(), ep != nil && e.rooted(ep.Call.Args[0], slotP),
 				"the epoch marked resolved is not the epoch of the slot being resolved") {
 				continue
 			}
-			if g, why := an.Guarded(rav, call, an.DefaultGuard); !g {
+			if g, decided, why := c15ErrNilAt(rd, rav, nil, call); !decided {
+				c.Unsure(name+" after success", call.Pos(), "too many paths to enumerate")
+				continue
+			} else if !g {
 				c.Bad(name+" after success", call.Pos(), "resolveActiveValidators: "+why)
 				continue
 			}
-			// empty validator list: nothing to resolve
-			empty := false
-			if vals != nil {
-				if ln := findLen(rd, vals); ln != nil {
-					for _, cd := range an.CondsOn(rd, ln) {
-						if k, ok := an.ConstInt(cd.Other); cd.Other != nil && ok && k == 0 && cd.Op == token.EQL && cd.Succ(true).Dominates(call.Block()) {
-							empty = true
-						}
+			// on every path: the validator list is empty (nothing to resolve), or every resolver returned nil
+			var track []ssa.Value
+			track = append(track, lenCmps...)
+			errOf := map[ssa.CallInstruction][]c15Atom{}
+			loopOK := map[ssa.CallInstruction]bool{}
+			loopWhy, helperUnsure := "", ""
+			for _, rc := range rcs {
+				site, l, uns, w := c15SuccessSite(e, rd, rc, emptyIn)
+				if site == nil {
+					if uns {
+						helperUnsure = strings.Join(rc.names, "/") + ": " + w
+					} else {
+						loopWhy = w
 					}
+					continue
 				}
-				if !empty {
-					// findLen returns the first len(vals); look at all of them
-					for _, in := range an.Instrs(rd, false) {
-						lc, ok := in.(*ssa.Call)
-						if !ok {
-							continue
-						}
-						if b, ok := lc.Call.Value.(*ssa.Builtin); !ok || b.Name() != "len" || lc.Call.Args[0] != vals {
-							continue
-						}
-						for _, cd := range an.CondsOn(rd, lc) {
-							if k, ok := an.ConstInt(cd.Other); cd.Other != nil && ok && k == 0 && cd.Op == token.EQL && cd.Succ(true).Dominates(call.Block()) {
-								empty = true
-							}
-						}
+				if l != nil {
+					g, _, w := c15ErrNilAt(rd, site, l, call)
+					loopOK[rc.call] = g
+					if !g {
+						loopWhy = w
 					}
+					continue
+				}
+				if errs, _ := an.StatusOf(site, -1); len(errs) == 1 {
+					errOf[rc.call] = c15NilAtoms(rd, errs[0])
+					track = append(track, c15AtomVals(errOf[rc.call])...)
 				}
 			}
-			if empty {
-				c.Good(name+" after success", call.Pos(), "no active validators: nothing to resolve")
+			sawEmpty, why := false, ""
+			all, decided := c15Arrivals(rd, call, track, nil, func(f *an.H15Facts) bool {
+				if isEmpty(f) {
+					sawEmpty = true
+					return true
+				}
+				done := map[string]bool{}
+				for _, rc := range rcs {
+					good := false
+					if atoms := errOf[rc.call]; len(atoms) == 0 {
+						good = loopOK[rc.call]
+						if !good && loopWhy != "" {
+							why = rc.names[0] + "…: " + loopWhy
+						}
+					} else {
+						good = c15Holds(f, atoms)
+					}
+					if good {
+						for _, rn := range rc.names {
+							done[rn] = true
+						}
+					}
+				}
+				for _, rn := range resolverNames {
+					if !done[rn] {
+						if why == "" {
+							why = rn + " is not known to have returned nil"
+						}
+						return false
+					}
+				}
+				return true
+			})
+			if !decided {
+				c.Unsure(name+" after success", call.Pos(), "too many paths to enumerate")
 				continue
 			}
-			good, why := true, ""
-			for _, rn := range resolvers {
-				r := c.OneCall(rd, an.Static(c15P+".Scheduler."+rn), rn, false)
-				if g, w := an.Guarded(r, call, an.DefaultGuard); !g {
-					good, why = false, rn+": "+w
-					break
-				}
+			if !all && helperUnsure != "" {
+				c.Unsure(name+" after success", call.Pos(), helperUnsure)
+				continue
 			}
-			c.Check(name+" after success", call.Pos(), good,
-				"the epoch is marked resolved although a resolution may have failed or not run (it is never retried; duties of the epoch are lost or partial) — "+why)
+			detail := ""
+			if all && sawEmpty {
+				detail = "no active validators: nothing to resolve"
+			}
+			if all {
+				c.Good(name+" after success", call.Pos(), detail)
+			} else {
+				c.Bad(name+" after success", call.Pos(),
+					"the epoch is marked resolved although a resolution may have failed or not run (it is never retried; duties of the epoch are lost or partial) — "+why)
+			}
 		}
 	}
 	if n == 0 {
 		c.Bail("resolveDuties never calls setResolvedEpoch")
 	}
+}
+
+// c15ReachAvoiding: can control flow from just after instruction from to instruction to without
+// entering block avoid (again)?
+func c15ReachAvoiding(from, to ssa.Instruction, avoid *ssa.BasicBlock) bool {
+	if from.Block() == to.Block() && an.Dominates(from, to) {
+		return true
+	}
+	if to.Block() == avoid {
+		return false
+	}
+	av := map[*ssa.BasicBlock]bool{avoid: true}
+	for _, s := range from.Block().Succs {
+		if s == avoid {
+			continue
+		}
+		if s == to.Block() || an.CanReach(s, to.Block(), av) {
+			return true
+		}
+	}
+	return false
 }
